@@ -11,9 +11,11 @@
 //! grammar written here (header, fixed sizes, the two variable layouts).
 
 use std::cell::RefCell;
-use std::collections::BTreeMap;
+use std::collections::{BTreeMap, BTreeSet, HashSet};
+use std::hash::{Hash, Hasher};
+use std::str::FromStr;
 use std::io;
-use std::net::{Ipv4Addr, Ipv6Addr};
+use std::net::{IpAddr, Ipv4Addr, Ipv6Addr};
 use std::sync::{Arc, Mutex};
 use bytes::Bytes;
 use futures_util::FutureExt;
@@ -23,8 +25,9 @@ use rpki::crypto::keys::KeyIdentifier;
 use rpki::resources::addr::{MaxLenPrefix, Prefix};
 use rpki::resources::asn::Asn;
 use rpki::rtr::client::{Client, PayloadError, PayloadTarget};
-use rpki::rtr::payload::{Action, Payload, Timing};
+use rpki::rtr::payload::{Action, Aspa as ItemAspa, Payload, PayloadRef, RouteOrigin, RouterKey as ItemKey, Timing};
 use rpki::rtr::pdu;
+use rpki::rtr::server::{NotifySender, PayloadDiff, PayloadSet, PayloadSource, Server};
 use rpki::rtr::state::{Serial, State};
 use rpki_verif::{hex, trunc, Ctx, Space};
 
@@ -1399,12 +1402,39 @@ fn history_subjects(hv: &[(Val, Built, Vec<u8>)], cseeds: &[(u8, Option<(u16, u3
     out.push(Subject { name: "Ipv6Prefix::read on an IPv4 prefix".into(), run: Box::new(move || guarded(|| { let r = exec(&[Rd::Read(Ty::V6)], &w, &closes(w.len())[0]); format!("{:?}", r.steps) })) });
     out.push(Subject { name: "to_payload with prefix length 33".into(), run: Box::new(|| guarded(|| format!("{:?}",
         pdu::Payload::V4(pdu::Ipv4Prefix::new(1, 1, 33, 33, Ipv4Addr::from(0), Asn::from_u32(1))).to_payload().map_err(|e| hex(e.as_ref()))))) });
+    // the server and the two ends together as readers
+    for q in 0..2 {
+        out.push(Subject { name: format!("server reads a {} query in two chunks around a notification", if q == 0 { "serial" } else { "reset" }), run: Box::new(move || guarded(|| {
+            let w = history_query(q);
+            let r = exec_server(&w, &[Ev::Deliver(3), Ev::Settle, Ev::Notify, Ev::Settle, Ev::Deliver(w.len() - 3), Ev::Settle, Ev::Close, Ev::Settle]);
+            format!("{:?} out={} consumed={} ended={}", r.asked, hex(&r.out), r.consumed, r.conn_ended)
+        })) });
+    }
+    out.push(Subject { name: "client and server, two steps, notify in two chunks".into(), run: Box::new(|| guarded(|| {
+        let r = exec_e2e(&Plan { v: 2, start: None, steps: 2, msg: 2, sizes: vec![5, 7], tick_before: None });
+        format!("{:?} applied={:?} state={:?} asked={:?} end={:?}", r.steps, r.applied, r.state, r.asked, r.client_end)
+    })) });
+    out.push(Subject { name: "origin without max length: written, read back, looked up".into(), run: Box::new(|| guarded(|| {
+        let a = Abs::Origin { v6: false, addr: 0x0A00_0000, plen: 8, mlen: 8, asn: 64496 };
+        let mut acc = Acc::default();
+        match forms_of(&a, &Abs::Origin { v6: false, addr: 0, plen: 0, mlen: 0, asn: 1 }) {
+            // a handful of forms: the plainest two and those that leave the max length out
+            Ok(f) => { let few: Vec<Form> = f.into_iter().enumerate().filter(|(i, x)| *i < 2 || x.name.contains("{..}(MaxLenPrefix::new(p,None)") || x.name.contains("SLURM")).map(|(_, x)| x).collect(); judge_forms(&mut acc, &a, &few) }
+            Err(e) => return e,
+        }
+        format!("{} evaluations, {} failures {:?}", acc.evals, acc.fails.len(), acc.fails.iter().map(|f| f.oracle).collect::<Vec<_>>())
+    })) });
     for (init_v, state, stream, name) in cseeds.iter().cloned() {
         let (st2, n2) = (stream.clone(), name.clone());
         out.push(Subject { name: format!("client step {name}"), run: Box::new(move || guarded(|| client_obs(&exec_client(init_v, state, &stream, &closes(stream.len())[1])))) });
         out.push(Subject { name: format!("client step {n2} cut at 30"), run: Box::new(move || guarded(|| client_obs(&exec_client(init_v, state, &st2, &closes(30)[0])))) });
     }
     out
+}
+
+/// The queries of the server-side history subjects and predecessors.
+fn history_query(q: usize) -> Vec<u8> {
+    if q == 0 { Val::SerialQuery { v: 1, session: 0x1234, serial: 0xDEAD_BEEF }.build().wire() } else { Val::ResetQuery { v: 1 }.build().wire() }
 }
 
 /// A predecessor: an operation of the same API family that leaves by one particular exit.
@@ -1424,6 +1454,8 @@ enum Pred {
     ReadEof(usize, usize, usize),
     /// A client step dropped / failed / ended after k octets of the reply.
     ClientCancelled(usize, usize), ClientError(usize, usize),
+    /// A server connection whose client hangs up after k octets of a query (0: serial, 1: reset), a notification before that or not.
+    ServerCut(usize, usize, bool),
 }
 
 fn run_pred(p: &Pred, subjects: &[Subject], hv: &[(Val, Built, Vec<u8>)], cseeds: &[(u8, Option<(u16, u32)>, Vec<u8>, String)]) {
@@ -1455,6 +1487,11 @@ fn run_pred(p: &Pred, subjects: &[Subject], hv: &[(Val, Built, Vec<u8>)], cseeds
                 let _ = h.await;
             }));
         }
+        Pred::ServerCut(q, k, n) => {
+            let w = history_query(*q);
+            let script: Vec<Ev> = if *n { vec![Ev::Deliver(*k), Ev::Settle, Ev::Notify, Ev::Settle, Ev::Close, Ev::Settle] } else { vec![Ev::Deliver(*k), Ev::Close, Ev::Settle] };
+            exec_server(&w[..*k], &script);
+        }
         Pred::ClientCancelled(i, k) | Pred::ClientError(i, k) => {
             let (init_v, state, stream, _) = cseeds[*i].clone();
             let (k, fail) = (*k, matches!(p, Pred::ClientError(..)));
@@ -1482,6 +1519,7 @@ fn render_pred(p: &Pred, subjects: &[Subject], hv: &[(Val, Built, Vec<u8>)], cse
         Pred::ReadCancelled(i, r, k) => format!("[{} of {} pending after {k} octets, dropped]", readers_for(hv[*i].0.ty())[*r].render(), hv[*i].0.render()),
         Pred::ReadError(i, r, k) => format!("[{} of {} stream fails after {k} octets]", readers_for(hv[*i].0.ty())[*r].render(), hv[*i].0.render()),
         Pred::ReadEof(i, r, k) => format!("[{} of {} stream ends after {k} octets]", readers_for(hv[*i].0.ty())[*r].render(), hv[*i].0.render()),
+        Pred::ServerCut(q, k, n) => format!("[server connection: {} query cut after {k} octets{}, client closes]", if *q == 0 { "serial" } else { "reset" }, if *n { ", then a notification" } else { "" }),
         Pred::ClientCancelled(i, k) => format!("[client step {} pending after {k} octets, dropped]", cseeds[*i].3),
         Pred::ClientError(i, k) => format!("[client step {} stream fails after {k} octets]", cseeds[*i].3),
     }
@@ -1490,6 +1528,1364 @@ fn render_pred(p: &Pred, subjects: &[Subject], hv: &[(Val, Built, Vec<u8>)], cse
 /// Runs `f` on an OS thread of its own (library thread-locals start out fresh).
 fn on_fresh_thread<T: Send>(f: impl FnOnce() -> T + Send) -> T {
     std::thread::scope(|sc| std::thread::Builder::new().stack_size(8 << 20).spawn_scoped(sc, f).expect("cannot spawn a thread").join().expect("history thread died"))
+}
+
+//------------ construction forms of the payload values -------------------------
+//
+// Every way the public API offers to arrive at a payload value (constructors,
+// public fields / struct literals, field edits, `Default`, `From` / `TryFrom`,
+// `FromStr`, serde -- for items the SLURM assertions --, `Arbitrary`) must
+// denote the same item as far as the wire and the collections a client keeps
+// its data in are concerned: a normalisation done by one constructor must not
+// be relied upon by `==`, `Hash`, `Ord` or the PDU writers.
+
+/// What a payload item is on the wire, as plain integers and octets.
+#[derive(Clone, Debug, PartialEq, Eq, PartialOrd, Ord)]
+enum Abs {
+    /// An IPv4 address lives in the low 32 bits of `addr`.
+    Origin { v6: bool, addr: u128, plen: u8, mlen: u8, asn: u32 },
+    Key { ski: [u8; 20], asn: u32, info: Vec<u8> },
+    Aspa { customer: u32, providers: Vec<u32> },
+}
+
+impl Abs {
+    fn min_version(&self) -> u8 { match self { Abs::Origin { .. } => 0, Abs::Key { .. } => 1, Abs::Aspa { .. } => 2 } }
+
+    fn ip(&self) -> Option<IpAddr> {
+        match self { Abs::Origin { v6, addr, .. } => Some(if *v6 { IpAddr::V6(Ipv6Addr::from(*addr)) } else { IpAddr::V4(Ipv4Addr::from(*addr as u32)) }), _ => None }
+    }
+
+    fn render(&self) -> String {
+        match self {
+            Abs::Origin { plen, mlen, asn, .. } => format!("origin({}/{plen} max {mlen} asn {asn})", self.ip().unwrap()),
+            Abs::Key { ski, asn, info } => format!("router-key(ski {:#04x}.. asn {asn} info {} octets)", ski[0], info.len()),
+            Abs::Aspa { customer, providers } => format!("aspa(customer {customer} providers {})", if providers.len() <= 6 { format!("{providers:?}") } else { format!("{}x", providers.len()) }),
+        }
+    }
+
+    /// The PDU for this item, written without the library.
+    fn wire(&self, v: u8, flags: u8) -> Vec<u8> {
+        let hdr = |ty: u8, session: [u8; 2], len: u32| { let mut o = vec![v, ty, session[0], session[1]]; o.extend_from_slice(&len.to_be_bytes()); o };
+        match self {
+            Abs::Origin { v6: false, addr, plen, mlen, asn } => {
+                let mut o = hdr(4, [0, 0], 20); o.extend_from_slice(&[flags, *plen, *mlen, 0]);
+                o.extend_from_slice(&(*addr as u32).to_be_bytes()); o.extend_from_slice(&asn.to_be_bytes()); o
+            }
+            Abs::Origin { addr, plen, mlen, asn, .. } => {
+                let mut o = hdr(6, [0, 0], 32); o.extend_from_slice(&[flags, *plen, *mlen, 0]);
+                o.extend_from_slice(&addr.to_be_bytes()); o.extend_from_slice(&asn.to_be_bytes()); o
+            }
+            Abs::Key { ski, asn, info } => {
+                let mut o = hdr(9, [flags, 0], 32 + info.len() as u32);
+                o.extend_from_slice(ski); o.extend_from_slice(&asn.to_be_bytes()); o.extend_from_slice(info); o
+            }
+            Abs::Aspa { customer, providers } => {
+                let mut o = hdr(11, [flags, 0], 12 + 4 * providers.len() as u32);
+                o.extend_from_slice(&customer.to_be_bytes());
+                for p in providers { o.extend_from_slice(&p.to_be_bytes()) }
+                o
+            }
+        }
+    }
+}
+
+/// The abstract item a library value stands for, through its accessors only.
+fn abs_of(p: &Payload) -> Abs {
+    match p {
+        Payload::Origin(o) => {
+            let addr = match o.prefix.addr() { IpAddr::V4(a) => u32::from(a) as u128, IpAddr::V6(a) => u128::from(a) };
+            Abs::Origin { v6: !o.is_v4(), addr, plen: o.prefix.prefix_len(), mlen: o.prefix.resolved_max_len(), asn: o.asn.into_u32() }
+        }
+        Payload::RouterKey(k) => {
+            let mut ski = [0u8; 20]; ski.copy_from_slice(k.key_identifier.as_slice());
+            Abs::Key { ski, asn: k.asn.into_u32(), info: k.key_info.as_slice().to_vec() }
+        }
+        Payload::Aspa(a) => Abs::Aspa { customer: a.customer.into_u32(), providers: a.providers.iter().map(|x| x.into_u32()).collect() },
+    }
+}
+
+struct Form { name: String, item: Payload }
+
+/// Short rendering of a library item that shows the representation (an omitted max length stays visible).
+fn item_repr(p: &Payload) -> String {
+    match p {
+        Payload::Origin(o) => format!("{}/{} max_len={:?} {}", o.prefix.addr(), o.prefix.prefix_len(), o.prefix.max_len(), o.asn),
+        Payload::RouterKey(k) => format!("key {} {} info={}", k.key_identifier, k.asn, trunc(&hex(k.key_info.as_slice()), 24)),
+        Payload::Aspa(a) => format!("aspa {} providers={}", a.customer, trunc(&format!("{:?}", a.providers.iter().map(|x| x.into_u32()).collect::<Vec<_>>()), 60)),
+    }
+}
+
+fn es<E: std::fmt::Display>(what: &str) -> impl Fn(E) -> String + '_ { move |e| format!("{what}: {e}") }
+
+fn b64url(b: &[u8]) -> String {
+    use base64::Engine;
+    base64::engine::general_purpose::URL_SAFE_NO_PAD.encode(b)
+}
+
+/// The item through the SLURM (serde) route: a locally added assertion.
+fn slurm_form(a: &Abs) -> Result<Payload, String> {
+    let (version, body) = match a {
+        Abs::Origin { plen, mlen, asn, .. } => {
+            let ml = if mlen == plen && asn % 2 == 0 { String::new() } else { format!(", \"maxPrefixLength\": {mlen}") };
+            (1, format!("\"prefixAssertions\": [{{\"asn\": {asn}, \"prefix\": \"{}/{plen}\"{ml}}}], \"bgpsecAssertions\": []", a.ip().unwrap()))
+        }
+        Abs::Key { ski, asn, info } =>
+            (1, format!("\"prefixAssertions\": [], \"bgpsecAssertions\": [{{\"asn\": {asn}, \"SKI\": \"{}\", \"routerPublicKey\": \"{}\"}}]", b64url(ski), b64url(info))),
+        Abs::Aspa { customer, providers } =>
+            (2, format!("\"prefixAssertions\": [], \"bgpsecAssertions\": [], \"aspaAssertions\": [{{\"customerAsn\": {customer}, \"providerAsns\": {providers:?}}}]")),
+    };
+    let filters = if version == 2 { "\"prefixFilters\": [], \"bgpsecFilters\": [], \"aspaFilters\": []" } else { "\"prefixFilters\": [], \"bgpsecFilters\": []" };
+    let text = format!("{{\"slurmVersion\": {version}, \"validationOutputFilters\": {{{filters}}}, \"locallyAddedAssertions\": {{{body}}}}}");
+    let file = rpki::slurm::SlurmFile::from_str(&text).map_err(|e| format!("{e}"))?;
+    let items: Vec<Payload> = file.assertions.iter_payload().collect();
+    if items.len() != 1 { return Err(format!("{} items", items.len())) }
+    Ok(items.into_iter().next().unwrap())
+}
+
+/// Every construction form of the item `a`; `other` is a different item of
+/// the same kind that the field-edit forms start from.
+fn forms_of(a: &Abs, other: &Abs) -> Result<Vec<Form>, String> {
+    let mut out: Vec<Form> = Vec::new();
+    let mut put = |name: String, item: Payload| out.push(Form { name, item });
+    let asn_forms = |n: u32| -> Result<Vec<(&'static str, Asn)>, String> {
+        let mut v = vec![
+            ("Asn::from_u32", Asn::from_u32(n)), ("Asn::from(u32)", Asn::from(n)),
+            ("Asn::from_str(AS<n>)", Asn::from_str(&format!("AS{n}")).map_err(es("Asn::from_str"))?),
+            ("Asn::from_str(<n>)", Asn::from_str(&n.to_string()).map_err(es("Asn::from_str"))?),
+            ("serde Asn", serde_json::from_str::<Asn>(&n.to_string()).map_err(es("serde Asn"))?),
+        ];
+        if n > 0 { v.push(("Asn + 1", Asn::from_u32(n - 1) + 1)) }
+        Ok(v)
+    };
+    match a {
+        Abs::Origin { v6, addr, plen, mlen, asn } => {
+            let (v6, addr, plen, mlen, asn) = (*v6, *addr, *plen, *mlen, *asn);
+            let max: u8 = if v6 { 128 } else { 32 };
+            let ip = a.ip().unwrap();
+            let host_bits: u128 = if plen == max { 0 } else if v6 { u128::MAX >> plen } else { (u32::MAX as u128) >> plen };
+            let host: IpAddr = if v6 { IpAddr::V6(Ipv6Addr::from(addr | host_bits)) } else { IpAddr::V4(Ipv4Addr::from((addr | host_bits) as u32)) };
+            let text = format!("{ip}/{plen}");
+            let mut pfx: Vec<(&'static str, Prefix)> = vec![
+                ("Prefix::new", Prefix::new(ip, plen).map_err(es("Prefix::new"))?),
+                ("Prefix::new_relaxed(host bits set)", Prefix::new_relaxed(host, plen).map_err(es("Prefix::new_relaxed"))?),
+                ("Prefix::from_str", Prefix::from_str(&text).map_err(es("Prefix::from_str"))?),
+                ("Prefix::from_str_relaxed(host bits set)", Prefix::from_str_relaxed(&format!("{host}/{plen}")).map_err(es("Prefix::from_str_relaxed"))?),
+                ("serde Prefix", serde_json::from_str::<Prefix>(&format!("\"{text}\"")).map_err(es("serde Prefix"))?),
+            ];
+            match (ip, host) {
+                (IpAddr::V4(i), IpAddr::V4(h)) => {
+                    pfx.push(("Prefix::new_v4", Prefix::new_v4(i, plen).map_err(es("Prefix::new_v4"))?));
+                    pfx.push(("Prefix::new_v4_relaxed(host bits set)", Prefix::new_v4_relaxed(h, plen).map_err(es("Prefix::new_v4_relaxed"))?));
+                }
+                (IpAddr::V6(i), IpAddr::V6(h)) => {
+                    pfx.push(("Prefix::new_v6", Prefix::new_v6(i, plen).map_err(es("Prefix::new_v6"))?));
+                    pfx.push(("Prefix::new_v6_relaxed(host bits set)", Prefix::new_v6_relaxed(h, plen).map_err(es("Prefix::new_v6_relaxed"))?));
+                }
+                _ => unreachable!(),
+            }
+            let p0 = pfx[0].1;
+            let mut mls: Vec<(String, MaxLenPrefix)> = vec![
+                ("MaxLenPrefix::new(p,Some(max))".into(), MaxLenPrefix::new(p0, Some(mlen)).map_err(es("MaxLenPrefix::new"))?),
+                ("MaxLenPrefix::saturating_new(p,Some(max))".into(), MaxLenPrefix::saturating_new(p0, Some(mlen))),
+                ("MaxLenPrefix::from_str(a/l-m)".into(), MaxLenPrefix::from_str(&format!("{text}-{mlen}")).map_err(es("MaxLenPrefix::from_str"))?),
+            ];
+            if mlen == plen {
+                mls.push(("MaxLenPrefix::new(p,None)".into(), MaxLenPrefix::new(p0, None).map_err(es("MaxLenPrefix::new"))?));
+                mls.push(("MaxLenPrefix::from(Prefix)".into(), MaxLenPrefix::from(p0)));
+                mls.push(("MaxLenPrefix::saturating_new(p,None)".into(), MaxLenPrefix::saturating_new(p0, None)));
+                mls.push(("MaxLenPrefix::from_str(a/l)".into(), MaxLenPrefix::from_str(&text).map_err(es("MaxLenPrefix::from_str"))?));
+                if plen > 0 { mls.push(("MaxLenPrefix::saturating_new(p,Some(len-1))".into(), MaxLenPrefix::saturating_new(p0, Some(plen - 1)))) }
+            }
+            if mlen == max { mls.push(("MaxLenPrefix::saturating_new(p,Some(255))".into(), MaxLenPrefix::saturating_new(p0, Some(255)))) }
+            let asns = asn_forms(asn)?;
+            let (ml0, asn0) = (mls[0].1, asns[0].1);
+            // where a field edit starts from
+            let start = match forms_of_plain(other) { Payload::Origin(o) => o, _ => return Err("edit start is not an origin".into()) };
+            // the max-length forms x the ways to make an origin of them x the ways to wrap it
+            for (mn, ml) in &mls {
+                put(format!("Payload::origin({mn})"), Payload::origin(*ml, asn0));
+                let made = RouteOrigin::new(*ml, asn0);
+                let literal = RouteOrigin { prefix: *ml, asn: asn0 };
+                let edited = { let mut o = start; o.prefix = *ml; o.asn = asn0; o };
+                for (on, o) in [("RouteOrigin::new", made), ("RouteOrigin{..}", literal), ("fields assigned", edited)] {
+                    put(format!("Payload::from({on}({mn}))"), Payload::from(o));
+                    put(format!("Payload::Origin({on}({mn}))"), Payload::Origin(o));
+                }
+            }
+            for (pn, p) in &pfx[1..] {
+                put(format!("Payload::origin(MaxLenPrefix::new({pn},Some(max)))"), Payload::origin(MaxLenPrefix::new(*p, Some(mlen)).map_err(es("MaxLenPrefix::new"))?, asn0));
+                if mlen == plen { put(format!("Payload::Origin(RouteOrigin{{MaxLenPrefix::from({pn})}})"), Payload::Origin(RouteOrigin { prefix: MaxLenPrefix::from(*p), asn: asn0 })) }
+            }
+            for (an, x) in &asns[1..] {
+                put(format!("Payload::origin(.., {an})"), Payload::origin(ml0, *x));
+                put(format!("Payload::Origin(RouteOrigin{{.., {an}}})"), Payload::Origin(RouteOrigin { prefix: mls.last().unwrap().1, asn: *x }));
+            }
+        }
+        Abs::Key { ski, asn, info } => {
+            let hexski: String = ski.iter().map(|b| format!("{b:02x}")).collect();
+            let kis: Vec<(&'static str, KeyIdentifier)> = vec![
+                ("KeyIdentifier::from([u8;20])", KeyIdentifier::from(*ski)),
+                ("KeyIdentifier::try_from(&[u8])", KeyIdentifier::try_from(&ski[..]).map_err(es("KeyIdentifier::try_from"))?),
+                ("KeyIdentifier::from_str", KeyIdentifier::from_str(&hexski).map_err(es("KeyIdentifier::from_str"))?),
+                ("KeyIdentifier::from_str(upper case)", KeyIdentifier::from_str(&hexski.to_uppercase()).map_err(es("KeyIdentifier::from_str"))?),
+                ("serde KeyIdentifier", serde_json::from_str::<KeyIdentifier>(&format!("\"{hexski}\"")).map_err(es("serde KeyIdentifier"))?),
+            ];
+            let mut big = vec![0xEEu8; 3]; big.extend_from_slice(info); big.extend_from_slice(&[0xDD; 5]);
+            let big = Bytes::from(big);
+            let infos: Vec<(&'static str, pdu::RouterKeyInfo)> = vec![
+                ("RouterKeyInfo::new(Bytes)", pdu::RouterKeyInfo::new(Bytes::from(info.clone())).map_err(es("RouterKeyInfo::new"))?),
+                ("RouterKeyInfo::try_from(Vec)", pdu::RouterKeyInfo::try_from(info.clone()).map_err(es("RouterKeyInfo::try_from"))?),
+                ("RouterKeyInfo::try_from(Bytes view)", pdu::RouterKeyInfo::try_from(big.slice(3..3 + info.len())).map_err(es("RouterKeyInfo::try_from"))?),
+                ("pdu::RouterKey::into_key_info", pdu::RouterKey::new(1, 0, [0; 20], Asn::from_u32(0), pdu::RouterKeyInfo::new(Bytes::copy_from_slice(info)).map_err(es("RouterKeyInfo::new"))?).into_key_info()),
+                ("RouterKeyInfo::from(Base64KeyInfo)", pdu::RouterKeyInfo::from(rpki::slurm::Base64KeyInfo::try_from(info.clone()).map_err(es("Base64KeyInfo::try_from"))?)),
+            ];
+            let asns = asn_forms(*asn)?;
+            let start = match forms_of_plain(other) { Payload::RouterKey(k) => k, _ => return Err("edit start is not a router key".into()) };
+            let mut wraps = |tag: String, ki: KeyIdentifier, x: Asn, inf: &pdu::RouterKeyInfo| {
+                put(format!("Payload::router_key({tag})"), Payload::router_key(ki, x, inf.clone()));
+                let made = ItemKey::new(ki, x, inf.clone());
+                let literal = ItemKey { key_identifier: ki, asn: x, key_info: inf.clone() };
+                let edited = { let mut k = start.clone(); k.key_info = inf.clone(); k.asn = x; k.key_identifier = ki; k };
+                for (on, k) in [("RouterKey::new", made), ("RouterKey{..}", literal), ("fields assigned", edited)] {
+                    put(format!("Payload::from({on}({tag}))"), Payload::from(k.clone()));
+                    put(format!("Payload::RouterKey({on}({tag}).clone())"), Payload::RouterKey(k.clone()));
+                }
+            };
+            for (n, ki) in &kis { wraps((*n).to_string(), *ki, asns[0].1, &infos[0].1) }
+            for (n, inf) in &infos[1..] { wraps((*n).to_string(), kis[0].1, asns[0].1, inf) }
+            for (n, x) in &asns[1..] { wraps((*n).to_string(), kis[0].1, *x, &infos[0].1) }
+        }
+        Abs::Aspa { customer, providers } => {
+            let it = || providers.iter().map(|p| Asn::from_u32(*p));
+            let mut provs: Vec<(&'static str, pdu::ProviderAsns)> = vec![
+                ("ProviderAsns::try_from_iter(Vec)", pdu::ProviderAsns::try_from_iter(it().collect::<Vec<_>>()).map_err(es("try_from_iter"))?),
+                ("ProviderAsns::try_from_iter(iterator without size hint)", pdu::ProviderAsns::try_from_iter(it().filter(|_| true)).map_err(es("try_from_iter"))?),
+                ("ProviderAsns::try_from_iter(chained halves)", pdu::ProviderAsns::try_from_iter(it().take(providers.len() / 2).chain(it().skip(providers.len() / 2))).map_err(es("try_from_iter"))?),
+                ("pdu::Aspa::into_providers", pdu::Aspa::new(2, 1, Asn::from_u32(0), pdu::ProviderAsns::try_from_iter(it()).map_err(es("try_from_iter"))?).into_providers()),
+            ];
+            if providers.is_empty() {
+                provs.push(("ProviderAsns::empty", pdu::ProviderAsns::empty()));
+                provs.push(("Aspa::withdraw().providers", ItemAspa::new(Asn::from_u32(7), pdu::ProviderAsns::try_from_iter([Asn::from_u32(1)]).map_err(es("try_from_iter"))?).withdraw().providers));
+            }
+            let asns = asn_forms(*customer)?;
+            let start = match forms_of_plain(other) { Payload::Aspa(x) => x, _ => return Err("edit start is not an ASPA".into()) };
+            let mut wraps = |tag: String, c: Asn, pr: &pdu::ProviderAsns| {
+                put(format!("Payload::aspa({tag})"), Payload::aspa(c, pr.clone()));
+                let made = ItemAspa::new(c, pr.clone());
+                let literal = ItemAspa { customer: c, providers: pr.clone() };
+                let edited = { let mut x = start.clone(); x.providers = pr.clone(); x.customer = c; x };
+                for (on, x) in [("Aspa::new", made), ("Aspa{..}", literal), ("fields assigned", edited)] {
+                    put(format!("Payload::from({on}({tag}))"), Payload::from(x.clone()));
+                    put(format!("Payload::Aspa({on}({tag}).clone())"), Payload::Aspa(x.clone()));
+                }
+            };
+            for (n, pr) in &provs { wraps((*n).to_string(), asns[0].1, pr) }
+            for (n, x) in &asns[1..] { wraps((*n).to_string(), *x, &provs[0].1) }
+        }
+    }
+    match slurm_form(a) {
+        Ok(item) => put("SLURM locallyAddedAssertions (serde)".into(), item),
+        Err(e) => return Err(format!("SLURM assertion for a valid item is rejected: {e}")),
+    }
+    Ok(out)
+}
+
+/// The item through the plainest constructors (the start of field edits).
+fn forms_of_plain(a: &Abs) -> Payload {
+    match a {
+        Abs::Origin { plen, mlen, asn, .. } => Payload::origin(MaxLenPrefix::new(Prefix::new(a.ip().unwrap(), *plen).unwrap(), Some(*mlen)).unwrap(), Asn::from_u32(*asn)),
+        Abs::Key { ski, asn, info } => Payload::router_key(KeyIdentifier::from(*ski), Asn::from_u32(*asn), pdu::RouterKeyInfo::new(Bytes::from(info.clone())).unwrap()),
+        Abs::Aspa { customer, providers } => Payload::aspa(Asn::from_u32(*customer), pdu::ProviderAsns::try_from_iter(providers.iter().map(|p| Asn::from_u32(*p))).unwrap()),
+    }
+}
+
+fn hash_std<T: Hash>(t: &T) -> u64 { let mut h = std::collections::hash_map::DefaultHasher::new(); t.hash(&mut h); h.finish() }
+
+/// A second, octet-wise hasher (FNV-1a): what a hash depends on must not depend on the hasher.
+struct Fnv(u64);
+impl Hasher for Fnv {
+    fn finish(&self) -> u64 { self.0 }
+    fn write(&mut self, b: &[u8]) { for x in b { self.0 ^= *x as u64; self.0 = self.0.wrapping_mul(0x100000001b3) } }
+}
+fn hash_fnv<T: Hash>(t: &T) -> u64 { let mut h = Fnv(0xcbf29ce484222325); t.hash(&mut h); h.finish() }
+
+/// `x` and `y` stand for the same item: `==`, `Hash` and `Ord` must all say so.
+fn same_law<T: Eq + Hash + Ord>(x: &T, y: &T, sets: bool) -> Result<(), (&'static str, String)> {
+    use std::cmp::Ordering::Equal;
+    if !(x == y) || !(y == x) || x != y { return Err(("C07.forms.equal", format!("== says {} / {}", x == y, y == x))) }
+    if hash_std(x) != hash_std(y) || hash_fnv(x) != hash_fnv(y) { return Err(("C07.forms.hash", "equal values hash differently".into())) }
+    if !sets { return if x.cmp(y) != Equal || y.cmp(x) != Equal || x.partial_cmp(y) != Some(Equal) { Err(("C07.forms.ord", format!("cmp says {:?} / {:?} for values that are ==", x.cmp(y), y.cmp(x)))) } else { Ok(()) } }
+    let mut set = HashSet::new(); set.insert(x);
+    if !set.contains(y) || !set.remove(y) { return Err(("C07.forms.hash", "a HashSet holding the one does not find / remove the other".into())) }
+    if x.cmp(y) != Equal || y.cmp(x) != Equal || x.partial_cmp(y) != Some(Equal) || x < y || x > y || !(x <= y) || !(x >= y) {
+        return Err(("C07.forms.ord", format!("cmp says {:?} / {:?}, partial_cmp {:?}, for values that are ==", x.cmp(y), y.cmp(x), x.partial_cmp(y))))
+    }
+    let mut tree = BTreeSet::new(); tree.insert(x);
+    if !tree.contains(y) || !tree.remove(y) { return Err(("C07.forms.ord", "a BTreeSet holding the one does not find the other".into())) }
+    Ok(())
+}
+
+/// `x` and `y` stand for different items.
+fn distinct_law<T: Eq + Hash + Ord>(x: &T, y: &T) -> Result<(), String> {
+    use std::cmp::Ordering::Equal;
+    if x == y || y == x || !(x != y) { return Err("== holds between different items".into()) }
+    let (a, b) = (x.cmp(y), y.cmp(x));
+    if a == Equal || b == Equal || a != b.reverse() || x.partial_cmp(y) != Some(a) || (x < y) != (a == std::cmp::Ordering::Less) {
+        return Err(format!("cmp says {a:?} / {b:?} (partial_cmp {:?}) between different items", x.partial_cmp(y)))
+    }
+    Ok(())
+}
+
+/// The three levels at which user code holds an item.
+/// `deep`: with the collection lookups at every level and the `PayloadRef::from` routes (used for
+/// every form against what is read back; pairs of forms do the lookups at the `Payload` level only).
+fn same_item(x: &Payload, y: &Payload, deep: bool) -> Result<(), (&'static str, String)> {
+    let lvl = |l: &str, r: Result<(), (&'static str, String)>| r.map_err(|(o, d)| (o, format!("{l}: {d}")));
+    lvl("Payload", same_law(x, y, true))?;
+    lvl("PayloadRef", same_law(&x.as_ref(), &y.as_ref(), deep))?;
+    match (x, y) {
+        (Payload::Origin(a), Payload::Origin(b)) => {
+            lvl("RouteOrigin", same_law(a, b, deep))?;
+            if deep { lvl("PayloadRef::from(RouteOrigin)", same_law(&PayloadRef::from(*a), &PayloadRef::from(b), deep))? }
+            if x.to_origin() != Some(*b) { return Err(("C07.forms.equal", "to_origin() of the one != the other".into())) }
+        }
+        (Payload::RouterKey(a), Payload::RouterKey(b)) => { lvl("RouterKey", same_law(a, b, deep))?; if deep { lvl("PayloadRef::from(&RouterKey)", same_law(&PayloadRef::from(a), &PayloadRef::from(b), deep))? } }
+        (Payload::Aspa(a), Payload::Aspa(b)) => { lvl("Aspa", same_law(a, b, deep))?; if deep { lvl("PayloadRef::from(&Aspa)", same_law(&PayloadRef::from(a), &PayloadRef::from(b), deep))? } }
+        _ => return Err(("C07.forms.equal", "different variants".into())),
+    }
+    Ok(())
+}
+
+/// Reads one payload PDU from a slice; what was read and the octets left.
+fn read_payload_slice(w: &[u8]) -> Result<(pdu::Payload, usize), String> {
+    let mut rd: &[u8] = w;
+    match pdu::Payload::read(&mut rd).now_or_never() {
+        None => Err("Payload::read is pending on a slice".into()),
+        Some(Err(e)) => Err(format!("Payload::read fails: {}", err_text(&e))),
+        Some(Ok(Err(e))) => Err(format!("Payload::read returns end of data {e:?}")),
+        Some(Ok(Ok(None))) => Err("Payload::read skips the PDU as unsupported".into()),
+        Some(Ok(Ok(Some(p)))) => Ok((p, rd.len())),
+    }
+}
+
+fn write_vec<F: std::future::Future<Output = io::Result<()>>>(f: F) -> Result<(), String> {
+    match f.now_or_never() { None => Err("write is pending on a Vec".into()), Some(Err(e)) => Err(err_text(&e)), Some(Ok(())) => Ok(()) }
+}
+
+/// One item in all its forms: the forms against the item they were built
+/// for, against the wire, against what is read back, and against each other.
+fn judge_forms(acc: &mut Acc, a: &Abs, forms: &[Form]) {
+    let withdrawn = |f: &Payload| match f { Payload::Aspa(x) => Payload::Aspa(x.withdraw()), other => other.clone() };
+    for f in forms {
+        let wit = || format!("item={} form={}", a.render(), f.name);
+        acc.evals += 1;
+        let r = rpki_verif::guard(|| -> Result<(), (&'static str, String)> {
+            let got = abs_of(&f.item);
+            if got != *a { return Err(("C07.forms.accessors", format!("the accessors of the value built say {}", got.render()))) }
+            same_item(&f.item, &f.item.clone(), true).map_err(|(o, d)| (o, format!("against its own clone: {d}")))?;
+            for v in a.min_version()..=2 { for action in [Action::Announce, Action::Withdraw] {
+                let flags = action.into_flags();
+                let want = a.wire(v, flags);
+                let p = pdu::Payload::new(v, flags, f.item.as_ref());
+                if pdu::Payload::new_if_supported(v, flags, f.item.as_ref()).as_ref() != Some(&p) { return Err(("C07.forms.wire", format!("version {v}: new_if_supported differs from new"))) }
+                let mut wire = Vec::new();
+                write_vec(p.write(&mut wire)).map_err(|e| ("C07.forms.wire", e))?;
+                if wire != want { return Err(("C07.forms.wire", format!("version {v} {action:?}: written {} expected {}", show(&wire), show(&want)))) }
+                let (back, left) = read_payload_slice(&wire).map_err(|e| ("C07.forms.read_back", e))?;
+                if left != 0 || back != p || back.version() != v || back.flags() != flags { return Err(("C07.forms.read_back", format!("version {v} {action:?}: the PDU read back differs from the one written ({left} octets left)"))) }
+                let (act, item) = back.to_payload().map_err(|_| ("C07.forms.read_back", "to_payload rejects what the library wrote".to_string()))?;
+                if act != action { return Err(("C07.forms.read_back", format!("action {act:?} read back for {action:?}"))) }
+                // a withdrawn ASPA arrives by customer only
+                let twin = if action == Action::Withdraw { withdrawn(&f.item) } else { f.item.clone() };
+                let tw_abs = abs_of(&twin);
+                if abs_of(&item) != tw_abs { return Err(("C07.forms.read_back", format!("version {v} {action:?}: read back {}", abs_of(&item).render()))) }
+                same_item(&item, &twin, true).map_err(|(o, d)| (o, format!("version {v} {action:?}: the item read back ({}) against the item written ({}): {d}", item_repr(&item), item_repr(&twin))))?;
+            } }
+            Ok(())
+        });
+        match r {
+            Ok(Ok(())) => acc.class("form:round-trips-equal"),
+            Ok(Err((o, d))) => { acc.fail(o, wit, d); acc.class("violation") }
+            Err(p) => { acc.fail("C07.forms.no_panic", wit, p); acc.class("violation") }
+        }
+    }
+    // every pair of forms
+    for (i, f) in forms.iter().enumerate() { for g in &forms[i + 1..] {
+        acc.evals += 1; acc.nontrivial += 1;
+        let wit = || format!("item={} form_a={} form_b={}", a.render(), f.name, g.name);
+        match rpki_verif::guard(|| same_item(&f.item, &g.item, false)) {
+            Ok(Ok(())) => acc.class("pair:same-item"),
+            Ok(Err((o, d))) => { acc.fail(o, wit, format!("{d}; a={} b={}", item_repr(&f.item), item_repr(&g.item))); acc.class("violation") }
+            Err(p) => { acc.fail("C07.forms.no_panic", wit, p); acc.class("violation") }
+        }
+    } }
+}
+
+/// The items of the forms space.
+fn form_items() -> Vec<Abs> {
+    let mut out = Vec::new();
+    for asn in [0u32, 64496, 0xFFFF_FFFF] {
+        for plen in [0u8, 1, 8, 24, 31, 32] {
+            let mask: u32 = if plen == 0 { 0 } else { u32::MAX << (32 - plen) };
+            for mlen in dedup(vec![plen, (plen + 32).div_ceil(2), 32]) { for addr in dedup(vec![0xC633_64AB & mask, mask]) {
+                if asn != 64496 && addr == mask && plen != 0 { continue }
+                out.push(Abs::Origin { v6: false, addr: addr as u128, plen, mlen, asn });
+            } }
+        }
+        for plen in [0u8, 1, 32, 64, 127, 128] {
+            let mask: u128 = if plen == 0 { 0 } else { u128::MAX << (128 - plen) };
+            for mlen in dedup(vec![plen, ((plen as u16 + 129) / 2) as u8, 128]) { for addr in dedup(vec![0x2001_0db8_85a3_0042_1000_8a2e_0370_7335 & mask, mask]) {
+                if asn != 64496 && addr == mask && plen != 0 { continue }
+                out.push(Abs::Origin { v6: true, addr, plen, mlen, asn });
+            } }
+        }
+    }
+    let mut seq = [0u8; 20]; for (i, b) in seq.iter_mut().enumerate() { *b = (i as u8) * 13 + 1 }
+    for ski in [[0xFFu8; 20], seq] { for asn in [0u32, 64500] { for n in [0usize, 1, 5, 91, 300] {
+        out.push(Abs::Key { ski, asn, info: (0..n).map(|i| (i as u8) ^ 0xA5).collect() });
+    } } }
+    for customer in [0u32, 64501, 0xFFFF_FFFF] {
+        // sorted, unsorted, with duplicates, long: the library must carry the list as given
+        for providers in [vec![], vec![1], vec![1, 2], vec![2, 1], vec![3, 3], vec![0xFFFF_FFFF, 0, 7, 7, 1], (0..40).map(|i| 70000 - i).collect::<Vec<u32>>()] {
+            out.push(Abs::Aspa { customer, providers });
+        }
+    }
+    out
+}
+
+/// Items drawn through the `Arbitrary` impls from a small, fixed family of inputs.
+fn arbitrary_items() -> Vec<(String, Payload)> {
+    use arbitrary::{Arbitrary, Unstructured};
+    let mut inputs: Vec<Vec<u8>> = Vec::new();
+    // every octet string of length <= 1, a grid of those of length 2
+    inputs.push(vec![]);
+    for a in 0..=255u8 { inputs.push(vec![a]) }
+    for a in 0..4u8 { for b in (0..=255u8).step_by(15) { inputs.push(vec![a, b]) } }
+    // structured: selector / family octet, length octet, 16 address octets, option flag, option value, 4 ASN octets, then a length and contents for the variable parts
+    for sel in [0u8, 1] { for len in [0u8, 24, 32, 33, 128, 255] { for addr in [0x00u8, 0xA5] {
+        for opt in [[0u8, 0], [1, 0], [1, 24], [1, 32], [1, 200], [0, 32]] { for asn in [0u8, 0xFE] {
+            let mut d = vec![sel, len]; d.extend_from_slice(&[addr; 16]); d.extend_from_slice(&opt); d.extend_from_slice(&[asn; 4]);
+            d.extend_from_slice(&[3, 0, 0, 0, 0, 0, 0, 0, 9, 8, 7, 6, 5, 4, 3, 2]);
+            inputs.push(d);
+        } }
+    } } }
+    // the variable-length parts: a little-endian length and that many octets (router key info, provider octets)
+    for n in [0u8, 1, 2, 5, 8] {
+        let mut d = vec![0x11u8; 24]; d.extend_from_slice(&[n, 0, 0, 0, 0, 0, 0, 0]); d.extend((0..40u8).map(|i| i ^ 0x5A)); inputs.push(d.clone());
+        let mut e = vec![0x22u8; 4]; e.extend_from_slice(&[n, 0, 0, 0, 0, 0, 0, 0]); e.extend((0..40u8).map(|i| i.wrapping_mul(7))); inputs.push(e);
+    }
+    let mut out = Vec::new();
+    for d in &inputs {
+        let tag = if d.len() <= 8 { hex(d) } else { format!("{}..x{}", hex(&d[..8]), d.len()) };
+        let mut draw = |ty: &str, r: Result<arbitrary::Result<Payload>, String>| if let Ok(Ok(p)) = r { out.push((format!("{ty}::arbitrary(input {tag})"), p)) };
+        draw("RouteOrigin", rpki_verif::guard(|| RouteOrigin::arbitrary(&mut Unstructured::new(d)).map(Payload::Origin)));
+        draw("RouterKey", rpki_verif::guard(|| ItemKey::arbitrary(&mut Unstructured::new(d)).map(Payload::RouterKey)));
+        draw("Aspa", rpki_verif::guard(|| ItemAspa::arbitrary(&mut Unstructured::new(d)).map(Payload::Aspa)));
+        draw("Payload", rpki_verif::guard(|| Payload::arbitrary(&mut Unstructured::new(d))));
+    }
+    out
+}
+
+fn space_forms(ctx: &Ctx) {
+    let sp = ctx.space("forms.items",
+        "every payload item of a boundary domain (IPv4/IPv6 origins: prefix lengths 0,1,8,24,31,32 / 0,1,32,64,127,128 x max length = len, middle, family maximum x ASN 0, 64496, 2^32-1; router keys: 2 key identifiers x 2 ASNs x key info of 0,1,5,91,300 octets; ASPA: 3 customers x provider lists empty, one, sorted, unsorted, with duplicates, 40 long) built in EVERY construction form the public API offers -- constructors (Payload::origin / router_key / aspa, RouteOrigin::new, RouterKey::new, Aspa::new), struct literals through the public fields, fields assigned on a value that was something else before, From / TryFrom impls, FromStr, serde (Prefix, Asn, KeyIdentifier; the item as a SLURM locally added assertion), prefixes given with host bits to the relaxed constructors, max length omitted / explicit / saturated where that denotes the same item, key info as sole owner / view into a larger buffer / taken out of a PDU, provider lists from iterators with and without size hint -- plus the items the Arbitrary impls draw from a fixed family of inputs (every octet string of <= 2 octets, structured inputs over family x length octet x address fill x max-length option x ASN): each form must answer its accessors with the item it was built for, be written by pdu::Payload::new / new_if_supported as exactly the octets an independent encoder gives (versions that carry the type x both actions), and be read back by Payload::read + to_payload as an item that is ==, hashes equal under two hashers, is found in and removed from a HashSet, compares Equal and is found in a BTreeSet -- as Payload, PayloadRef and RouteOrigin / RouterKey / Aspa; every PAIR of forms of one item must satisfy the same laws; forms of DIFFERENT items must be != and never compare Equal; non-trivial = pairs of distinct forms of one item + pairs of different items");
+    // a replay of a witness of another space has nothing to look for here
+    if let Some(Some(r)) = REPLAY.get() { if !["item=", "item_a=", "session=", "timing=", "action ", "drawing", "control"].iter().any(|p| r.starts_with(p)) { return } }
+    // the domain: constructed items, and whatever items the Arbitrary impls draw
+    let arb = rpki_verif::guard(arbitrary_items);
+    let arb = match arb { Ok(a) => a, Err(p) => { sp.eval(); ctx.fail("C07.forms.no_panic", "drawing items through the Arbitrary impls", p); Vec::new() } };
+    let mut groups: BTreeMap<Abs, Vec<(String, Payload)>> = BTreeMap::new();
+    for a in form_items() { groups.entry(a).or_default(); }
+    let (mut arb_none, mut arb_some, mut arb_total) = (0u64, 0u64, 0u64);
+    for (name, item) in arb {
+        let Ok(a) = rpki_verif::guard(|| abs_of(&item)) else { continue };
+        if let Payload::Origin(o) = &item { if o.prefix.max_len().is_none() { arb_none += 1 } else { arb_some += 1 } }
+        arb_total += 1;
+        let g = groups.entry(a).or_default();
+        // one draw per distinct representation is enough
+        if g.len() < 3 && !g.iter().any(|(_, x)| format!("{x:?}") == format!("{item:?}")) { g.push((name, item)) }
+    }
+    let items: Vec<(Abs, Vec<(String, Payload)>)> = groups.into_iter().collect();
+    let accs: Vec<Acc> = items.par_iter().enumerate().map(|(i, (a, drawn))| {
+        let mut acc = Acc::default();
+        // a different item of the same kind, for the field-edit forms
+        let other = items.iter().cycle().skip(i + 1).map(|(x, _)| x).find(|x| std::mem::discriminant(*x) == std::mem::discriminant(a) && *x != a).unwrap_or(a);
+        let forms = match rpki_verif::guard(|| forms_of(a, other)) {
+            Ok(Ok(f)) => f,
+            Ok(Err(e)) => { acc.evals += 1; acc.fail("C07.forms.construct", || format!("item={}", a.render()), format!("a public route refuses or fails to build a valid item: {e}")); acc.class("violation"); return acc }
+            Err(p) => { acc.evals += 1; acc.fail("C07.forms.no_panic", || format!("item={}", a.render()), format!("building the forms panics: {p}")); acc.class("violation"); return acc }
+        };
+        let mut forms = forms;
+        for (name, item) in drawn { forms.push(Form { name: name.clone(), item: item.clone() }) }
+        judge_forms(&mut acc, a, &forms);
+        acc
+    }).collect();
+    report(ctx, &sp, accs);
+    // different items: three forms each (the plainest, a literal, the last one -- a drawn one where there is one)
+    let reps: Vec<(usize, Vec<Form>)> = items.iter().enumerate().filter_map(|(i, (a, drawn))| {
+        let other = items.iter().cycle().skip(i + 1).map(|(x, _)| x).find(|x| std::mem::discriminant(*x) == std::mem::discriminant(a) && *x != a).unwrap_or(a);
+        let mut f = rpki_verif::guard(|| forms_of(a, other)).ok()?.ok()?;
+        for (name, item) in drawn { f.push(Form { name: name.clone(), item: item.clone() }) }
+        let lit = f.iter().rposition(|x| x.name.contains("{..}") && (x.name.contains("None") || x.name.contains("from(Prefix)") || !matches!(a, Abs::Origin { .. }))).unwrap_or(1.min(f.len() - 1));
+        let last = f.len() - 1;
+        let mut picked = Vec::new();
+        for k in dedup(vec![0, lit, last]) { picked.push(Form { name: f[k].name.clone(), item: f[k].item.clone() }) }
+        Some((i, picked))
+    }).collect();
+    let first_of_kind: Vec<usize> = { let mut v: Vec<usize> = Vec::new(); for (i, (a, _)) in items.iter().enumerate() { if !v.iter().any(|k| std::mem::discriminant(&items[*k].0) == std::mem::discriminant(a)) { v.push(i) } } v };
+    let accs: Vec<Acc> = reps.par_iter().map(|(i, fa)| {
+        let mut acc = Acc::default();
+        for (j, fb) in &reps {
+            if j <= i { continue }
+            // all pairs of items of one kind; across kinds the first item of each kind stands for the kind
+            let same_kind = std::mem::discriminant(&items[*i].0) == std::mem::discriminant(&items[*j].0);
+            if !same_kind && !(first_of_kind.contains(i) && first_of_kind.contains(j)) { continue }
+            for x in fa { for y in fb {
+                acc.evals += 1; acc.nontrivial += 1;
+                let r = rpki_verif::guard(|| -> Result<(), String> {
+                    distinct_law(&x.item, &y.item).map_err(|d| format!("Payload: {d}"))?;
+                    distinct_law(&x.item.as_ref(), &y.item.as_ref()).map_err(|d| format!("PayloadRef: {d}"))?;
+                    match (&x.item, &y.item) {
+                        (Payload::Origin(a), Payload::Origin(b)) => distinct_law(a, b).map_err(|d| format!("RouteOrigin: {d}")),
+                        (Payload::RouterKey(a), Payload::RouterKey(b)) => distinct_law(a, b).map_err(|d| format!("RouterKey: {d}")),
+                        (Payload::Aspa(a), Payload::Aspa(b)) => distinct_law(a, b).map_err(|d| format!("Aspa: {d}")),
+                        _ => Ok(()),
+                    }
+                });
+                let wit = || format!("item_a={} form_a={} item_b={} form_b={}", items[*i].0.render(), x.name, items[*j].0.render(), y.name);
+                match r {
+                    Ok(Ok(())) => acc.class("pair:different-items-differ"),
+                    Ok(Err(d)) => { acc.fail("C07.forms.distinct", wit, d); acc.class("violation") }
+                    Err(p) => { acc.fail("C07.forms.no_panic", wit, p); acc.class("violation") }
+                }
+            } }
+        }
+        acc
+    }).collect();
+    report(ctx, &sp, accs);
+    sp.set("items", serde_json::json!(items.len()));
+    sp.set("arbitrary_draws", serde_json::json!({ "items": arb_total, "origins_without_max_len": arb_none, "origins_with_max_len": arb_some }));
+    sp.outcomes_n("drawn:origin-without-max-len", arb_none);
+    sp.outcomes_n("drawn:origin-with-max-len", arb_some);
+    sp.sample_str(|| { let a = Abs::Origin { v6: false, addr: 0x0A00_0000, plen: 8, mlen: 8, asn: 64496 };
+        format!("{}: {}", a.render(), forms_of(&a, &a).map(|f| f.iter().map(|x| x.name.clone()).collect::<Vec<_>>().join(" | ")).unwrap_or_default()) });
+    sp.done(true, &format!("{} items x all construction forms x all form pairs; 3 forms each of all pairs of different items of one kind", items.len()));
+
+    //--- the values control PDUs carry: State / Serial, Timing, Action
+    let sp = ctx.space("forms.control",
+        "session state, timing and action values in every construction form -- State::from_parts with the serial as Serial(n), Serial::from, FromStr, from_be(to_be), Default, reached by inc() and by add(); State::new / new_with_serial / default (session taken from the clock); the states and serials the Arbitrary impls draw; Timing as a literal, Default, struct update and assigned fields; Action literal, from_flags for all 256 flag octets, drawn -- carried by every PDU that has the field (SerialNotify, SerialQuery, CacheResponse, EndOfDataV0, EndOfDataV1, EndOfData::new; payload PDUs for the action), versions 0-2: octets written equal the independent encoding, and what is read back answers session / serial / timing / action with the values given; serials read back are ==, equally hashed and partial_cmp Equal to the ones written; non-trivial = forms other than the plain constructor");
+    let mut acc = Acc::default();
+    let r = rpki_verif::guard(|| judge_control_forms(&mut acc));
+    if let Err(p) = r { acc.fail("C07.forms.no_panic", || "control value forms".to_string(), p); acc.class("violation") }
+    report(ctx, &sp, vec![acc]);
+    sp.done(true, "4 sessions x 5 serials x state forms x 6 carriers x versions; 6 timings x forms x 2 carriers; 256 flag octets");
+}
+
+/// Object-level history: an item that has been through a sequence of field
+/// assignments, clones and observations must be the item its fields now say,
+/// exactly like a twin that was built from those fields in one go.
+fn space_forms_history(ctx: &Ctx) {
+    if let Some(Some(r)) = REPLAY.get() { if !r.starts_with("history of ") { return } }
+    let sp = ctx.space("forms.history",
+        "for each kind of item three values A, B, C (origins: one with the max length left out, one explicit, one IPv6; router keys and ASPAs with different identifiers and contents of different lengths): every sequence of <= 3 operations out of { assign one public field from A / B / C, clone and go on with the clone (the original must stay what it was), observe (compare, hash, write as a PDU, read back -- results thrown away) } applied to an item built as A, B or C; afterwards the item must be the one its fields say: equal in ==, Hash, Ord, in the octets written and in what is read back to a twin built from those field values through the constructor; for session states: every sequence of <= 3 out of { inc, add(1), add(2^31-1), copy, observe } against State::from_parts of the serial computed by the model; non-trivial = sequences with at least one assignment or inc/add");
+    #[derive(Clone, Copy, Debug, PartialEq, Eq)]
+    enum Op { Set(usize, usize), Clone, Observe }
+    // the values: per kind three items, given by their fields
+    let origins: [(MaxLenPrefix, Asn); 3] = [
+        (MaxLenPrefix::from(Prefix::new_v4(Ipv4Addr::from(0x0A00_0000), 8).unwrap()), Asn::from_u32(64496)),
+        (MaxLenPrefix::new(Prefix::new_v4(Ipv4Addr::from(0x0A00_0000), 8).unwrap(), Some(24)).unwrap(), Asn::from_u32(64497)),
+        (MaxLenPrefix::new(Prefix::new_v6(Ipv6Addr::from(0x2001_0db8u128 << 96), 32).unwrap(), None).unwrap(), Asn::from_u32(0xFFFF_FFFF)),
+    ];
+    let info = |n: usize, x: u8| pdu::RouterKeyInfo::new(Bytes::from(vec![x; n])).unwrap();
+    let keys: [(KeyIdentifier, Asn, pdu::RouterKeyInfo); 3] = [
+        (KeyIdentifier::from([1; 20]), Asn::from_u32(1), info(0, 0)), (KeyIdentifier::from([2; 20]), Asn::from_u32(2), info(5, 0xAA)), (KeyIdentifier::from([0xFF; 20]), Asn::from_u32(0xFFFF_FFFF), info(91, 0x55)),
+    ];
+    let provs = |v: &[u32]| pdu::ProviderAsns::try_from_iter(v.iter().map(|x| Asn::from_u32(*x))).unwrap();
+    let aspas: [(Asn, pdu::ProviderAsns); 3] = [(Asn::from_u32(10), provs(&[])), (Asn::from_u32(11), provs(&[3, 1, 2])), (Asn::from_u32(12), provs(&[7, 7]))];
+    // kind, number of fields; build(kind, field sources) and set(item, field, source)
+    let build = |kind: usize, f: &[usize]| -> Payload { match kind {
+        0 => Payload::origin(origins[f[0]].0, origins[f[1]].1),
+        1 => Payload::router_key(keys[f[0]].0, keys[f[1]].1, keys[f[2]].2.clone()),
+        _ => Payload::aspa(aspas[f[0]].0, aspas[f[1]].1.clone()),
+    } };
+    let set = |item: &mut Payload, field: usize, src: usize| match item {
+        Payload::Origin(o) => if field == 0 { o.prefix = origins[src].0 } else { o.asn = origins[src].1 },
+        Payload::RouterKey(k) => match field { 0 => k.key_identifier = keys[src].0, 1 => k.asn = keys[src].1, _ => k.key_info = keys[src].2.clone() },
+        Payload::Aspa(a) => if field == 0 { a.customer = aspas[src].0 } else { a.providers = aspas[src].1.clone() },
+    };
+    let observe = |item: &Payload| {
+        let _ = (item == &item.clone(), hash_std(item), item.cmp(item));
+        let mut w = Vec::new(); let _ = write_vec(pdu::Payload::new(2, 1, item.as_ref()).write(&mut w));
+        let _ = read_payload_slice(&w).map(|(p, _)| p.to_payload().is_ok());
+    };
+    let fields = [2usize, 3, 2];
+    let mut jobs: Vec<(usize, usize, Vec<Op>)> = Vec::new();
+    for kind in 0..3 {
+        let mut ops = vec![Op::Clone, Op::Observe];
+        for f in 0..fields[kind] { for src in 0..3 { ops.push(Op::Set(f, src)) } }
+        let mut seqs: Vec<Vec<Op>> = vec![vec![]];
+        let mut layer: Vec<Vec<Op>> = vec![vec![]];
+        for _ in 0..3 { let mut next = Vec::new(); for sq in &layer { for o in &ops { let mut n = sq.clone(); n.push(*o); next.push(n) } } seqs.extend(next.iter().cloned()); layer = next; }
+        for start in 0..3 { for sq in &seqs { jobs.push((kind, start, sq.clone())) } }
+    }
+    let accs: Vec<Acc> = jobs.par_chunks(256).map(|chunk| {
+        let mut acc = Acc::default();
+        for (kind, start, seq) in chunk {
+            acc.evals += 1;
+            let edits = seq.iter().any(|o| matches!(o, Op::Set(..)));
+            if edits { acc.nontrivial += 1 }
+            let wit = || format!("history of {} built as {}: {}", ["an origin", "a router key", "an ASPA"][*kind], ["A", "B", "C"][*start],
+                seq.iter().map(|o| match o { Op::Set(f, s) => format!("field#{f}:={}", ["A", "B", "C"][*s]), Op::Clone => "clone".into(), Op::Observe => "observe".into() }).collect::<Vec<_>>().join(", "));
+            let r = rpki_verif::guard(|| -> Result<(), (&'static str, String)> {
+                let mut model: Vec<usize> = vec![*start; fields[*kind]];
+                let mut item = build(*kind, &model);
+                let mut originals: Vec<(Payload, Vec<usize>)> = Vec::new();
+                for op in seq { match op {
+                    Op::Set(f, src) => { set(&mut item, *f, *src); model[*f] = *src }
+                    Op::Clone => { let c = item.clone(); originals.push((std::mem::replace(&mut item, c), model.clone())) }
+                    Op::Observe => observe(&item),
+                } }
+                originals.push((item, model));
+                for (it, m) in &originals {
+                    let twin = build(*kind, m);
+                    let a = abs_of(&twin);
+                    if abs_of(it) != a { return Err(("C07.forms.accessors", format!("the item answers {}, its fields were set to {}", abs_of(it).render(), a.render()))) }
+                    same_item(it, &twin, true).map_err(|(o, d)| (o, format!("against the twin built in one go ({}): {d}", item_repr(&twin))))?;
+                    for v in a.min_version()..=2 { for flags in [0u8, 1] {
+                        let mut w = Vec::new();
+                        write_vec(pdu::Payload::new(v, flags, it.as_ref()).write(&mut w)).map_err(|e| ("C07.forms.wire", e))?;
+                        if w != a.wire(v, flags) { return Err(("C07.forms.wire", format!("version {v} flags {flags}: written {}", show(&w)))) }
+                        let (p, _) = read_payload_slice(&w).map_err(|e| ("C07.forms.read_back", e))?;
+                        let (_, back) = p.to_payload().map_err(|_| ("C07.forms.read_back", "to_payload rejects what the library wrote".to_string()))?;
+                        let want = if flags == 0 { match it { Payload::Aspa(x) => Payload::Aspa(x.withdraw()), o => o.clone() } } else { it.clone() };
+                        same_item(&back, &want, true).map_err(|(o, d)| (o, format!("version {v} flags {flags}: read back {} against {}: {d}", item_repr(&back), item_repr(&want))))?;
+                    } }
+                }
+                Ok(())
+            });
+            match r {
+                Ok(Ok(())) => acc.class(if edits { "final-state-only:after-assignments" } else { "final-state-only:no-assignment" }),
+                Ok(Err((o, d))) => { acc.fail(o, wit, d); acc.class("violation") }
+                Err(p) => { acc.fail("C07.forms.no_panic", wit, p); acc.class("violation") }
+            }
+        }
+        acc
+    }).collect();
+    report(ctx, &sp, accs);
+    // session states
+    #[derive(Clone, Copy, Debug)] enum SOp { Inc, Add1, AddMax, Copy, Observe }
+    let sops = [SOp::Inc, SOp::Add1, SOp::AddMax, SOp::Copy, SOp::Observe];
+    let mut acc = Acc::default();
+    let mut seqs: Vec<Vec<SOp>> = vec![vec![]];
+    let mut layer: Vec<Vec<SOp>> = vec![vec![]];
+    for _ in 0..3 { let mut next = Vec::new(); for sq in &layer { for o in &sops { let mut n = sq.clone(); n.push(*o); next.push(n) } } seqs.extend(next.iter().cloned()); layer = next; }
+    for n0 in [0u32, 0x7FFF_FFFF, 0xFFFF_FFFE, 0xFFFF_FFFF] { for seq in &seqs {
+        acc.evals += 1;
+        let moves = seq.iter().any(|o| matches!(o, SOp::Inc | SOp::Add1 | SOp::AddMax));
+        if moves { acc.nontrivial += 1 }
+        let wit = || format!("history of a session state starting at serial {n0:#x}: {seq:?}");
+        let r = rpki_verif::guard(|| -> Result<(), String> {
+            let mut st = State::from_parts(0x0C07, Serial(n0));
+            let mut n = n0;
+            for o in seq { match o {
+                SOp::Inc => { st.inc(); n = n.wrapping_add(1) }
+                SOp::Add1 => { st = State::from_parts(st.session(), st.serial().add(1)); n = n.wrapping_add(1) }
+                SOp::AddMax => { st = State::from_parts(st.session(), st.serial().add(0x7FFF_FFFF)); n = n.wrapping_add(0x7FFF_FFFF) }
+                SOp::Copy => { let c = st; st = c }
+                SOp::Observe => { let mut w = Vec::new(); let _ = write_vec(pdu::SerialNotify::new(1, st).write(&mut w)); let _ = (st.session(), st.serial() == Serial(n)); }
+            } }
+            if st.session() != 0x0C07 || st.serial().0 != n || st.serial() != Serial(n) || hash_std(&st.serial()) != hash_std(&Serial(n)) { return Err(format!("the state answers serial {:#x}, the model says {n:#x}", st.serial().0)) }
+            let mut w = Vec::new();
+            write_vec(pdu::SerialQuery::new(2, st).write(&mut w))?;
+            if w != raw_control(2, 1, 0x0C07, &[n]) { return Err(format!("written as {}", hex(&w))) }
+            Ok(())
+        });
+        match r {
+            Ok(Ok(())) => acc.class(if moves { "state:final-serial-as-computed" } else { "state:unmoved" }),
+            Ok(Err(d)) => { acc.fail("C07.forms.accessors", wit, d); acc.class("violation") }
+            Err(p) => { acc.fail("C07.forms.no_panic", wit, p); acc.class("violation") }
+        }
+    } }
+    report(ctx, &sp, vec![acc]);
+    sp.sample_str(|| "history of an origin built as A: field#0:=B, clone, field#1:=C".to_string());
+    sp.done(true, &format!("{} item sequences (3 kinds x 3 starts x all sequences of <= 3 operations) + 4 serials x all sequences of <= 3 state operations", jobs.len()));
+}
+
+/// What `EndOfData` etc. look like on the wire, written without the library.
+fn raw_control(v: u8, ty: u8, session: u16, body: &[u32]) -> Vec<u8> {
+    let mut o = vec![v, ty]; o.extend_from_slice(&session.to_be_bytes());
+    o.extend_from_slice(&((8 + 4 * body.len()) as u32).to_be_bytes());
+    for x in body { o.extend_from_slice(&x.to_be_bytes()) }
+    o
+}
+
+fn judge_control_forms(acc: &mut Acc) {
+    use arbitrary::{Arbitrary, Unstructured};
+    // one group = the forms that must denote (session, serial); the clock-made states form groups of their own
+    let mut groups: Vec<((u16, u32), Vec<(String, State)>)> = Vec::new();
+    let twin_forms = |s: u16, n: u32| -> Vec<(String, State)> {
+        let mut v = vec![
+            ("State::from_parts(s, Serial(n))".to_string(), State::from_parts(s, Serial(n))),
+            ("State::from_parts(s, Serial::from(n))".into(), State::from_parts(s, Serial::from(n))),
+            ("State::from_parts(s, n.into())".into(), State::from_parts(s, n.into())),
+            ("State::from_parts(s, Serial::from_be(n.to_be()))".into(), State::from_parts(s, Serial::from_be(n.to_be()))),
+            ("from_parts(s, Serial(n-1)) then inc()".into(), { let mut st = State::from_parts(s, Serial(n.wrapping_sub(1))); st.inc(); st }),
+            ("from_parts(s, Serial(n-(2^31-1)).add(2^31-1))".into(), State::from_parts(s, Serial(n.wrapping_sub(0x7FFF_FFFF)).add(0x7FFF_FFFF))),
+            ("from_parts(s, Serial(n).add(0))".into(), State::from_parts(s, Serial(n).add(0))),
+        ];
+        if let Ok(x) = Serial::from_str(&n.to_string()) { v.push(("State::from_parts(s, Serial::from_str)".into(), State::from_parts(s, x))) }
+        if n == 0 { v.push(("State::from_parts(s, Serial::default())".into(), State::from_parts(s, Serial::default()))) }
+        v
+    };
+    for s in [0u16, 1, 0x8000, 0xFFFF] { for n in [0u32, 1, 0x7FFF_FFFF, 0x8000_0000, 0xFFFF_FFFF] {
+        let mut forms = twin_forms(s, n);
+        // drawn: the two octet orders an implementation might use
+        for d in [[&s.to_le_bytes()[..], &n.to_le_bytes()[..]].concat(), [&s.to_be_bytes()[..], &n.to_be_bytes()[..]].concat()] {
+            if let Ok(st) = State::arbitrary(&mut Unstructured::new(&d)) { if st.session() == s && st.serial().0 == n { forms.push((format!("State::arbitrary(input {})", hex(&d)), st)) } }
+            if let Ok(x) = Serial::arbitrary(&mut Unstructured::new(&d[2..])) { if x.0 == n { forms.push((format!("from_parts(s, Serial::arbitrary(input {}))", hex(&d[2..])), State::from_parts(s, x))) } }
+        }
+        groups.push(((s, n), forms));
+    } }
+    for (name, st) in [("State::new()", State::new()), ("State::default()", State::default()), ("State::new_with_serial(Serial(0xFFFFFFFF))", State::new_with_serial(Serial(0xFFFF_FFFF)))] {
+        // the session comes from the clock: the twins are built for whatever it is, and it is kept out of anything that is printed
+        let mut forms = vec![(name.to_string(), st)];
+        forms.extend(twin_forms(st.session(), st.serial().0));
+        groups.push(((st.session(), st.serial().0), forms));
+    }
+    let timing = Timing { refresh: 11, retry: 22, expire: 33 };
+    for ((s, n), forms) in &groups {
+        let clock = forms[0].0.starts_with("State::new") || forms[0].0.starts_with("State::default");
+        for (fi, (name, st)) in forms.iter().enumerate() {
+            let shown = if clock { format!("session=<clock> serial={n:#x}") } else { format!("session={s:#x} serial={n:#x}") };
+            let wit = || format!("{shown} form={name}");
+            if fi > 0 { acc.nontrivial += 1 }
+            let mut ok = true;
+            if st.session() != *s || st.serial().0 != *n || st.serial() != Serial(*n) || u32::from(st.serial()) != *n || st.serial().to_string() != n.to_string() {
+                acc.fail("C07.forms.accessors", wit, format!("the state built answers session {:#x} serial {:#x}", st.session(), st.serial().0)); ok = false;
+            }
+            for v in 0u8..=2 {
+                // (carrier, octets written, expected octets, what is read back as (session, serial))
+                type Back = Option<(Option<u16>, Option<Serial>, Option<Timing>)>;
+                let rd = |w: &[u8], which: u8| -> Back {
+                    let mut r: &[u8] = w;
+                    let x = match which {
+                        0 => pdu::SerialNotify::read(&mut r).now_or_never()?.ok().map(|p| (Some(p.session()), None, None)),
+                        1 => pdu::SerialQuery::read(&mut r).now_or_never()?.ok().map(|p| (Some(p.session()), None, None)),
+                        2 => pdu::CacheResponse::read(&mut r).now_or_never()?.ok().map(|p| (Some(p.session()), None, None)),
+                        3 => pdu::EndOfDataV0::read(&mut r).now_or_never()?.ok().map(|p| (Some(p.session()), Some(p.serial()), None)),
+                        4 => pdu::EndOfDataV1::read(&mut r).now_or_never()?.ok().map(|p| (Some(p.session()), Some(p.serial()), Some(p.timing()))),
+                        _ => match pdu::Payload::read(&mut r).now_or_never()?.ok()? { Err(e) => Some((Some(e.state().session()), Some(e.state().serial()), e.timing())), Ok(_) => None },
+                    };
+                    if r.is_empty() { x } else { None }
+                };
+                let mut cases: Vec<(&'static str, Vec<u8>, Vec<u8>, u8)> = Vec::new();
+                let w = |f: &dyn Fn(&mut Vec<u8>) -> Result<(), String>| -> Vec<u8> { let mut o = Vec::new(); let _ = f(&mut o); o };
+                cases.push(("SerialNotify::new", w(&|o| write_vec(pdu::SerialNotify::new(v, *st).write(o))), raw_control(v, 0, *s, &[*n]), 0));
+                cases.push(("SerialQuery::new", w(&|o| write_vec(pdu::SerialQuery::new(v, *st).write(o))), raw_control(v, 1, *s, &[*n]), 1));
+                cases.push(("CacheResponse::new", w(&|o| write_vec(pdu::CacheResponse::new(v, *st).write(o))), raw_control(v, 3, *s, &[]), 2));
+                if v == 0 {
+                    cases.push(("EndOfDataV0::new", w(&|o| write_vec(pdu::EndOfDataV0::new(*st).write(o))), raw_control(0, 7, *s, &[*n]), 3));
+                    cases.push(("EndOfData::new(0, ..)", w(&|o| write_vec(pdu::EndOfData::new(0, *st, timing).write(o))), raw_control(0, 7, *s, &[*n]), 5));
+                } else {
+                    cases.push(("EndOfDataV1::new", w(&|o| write_vec(pdu::EndOfDataV1::new(v, *st, timing).write(o))), raw_control(v, 7, *s, &[*n, 11, 22, 33]), 4));
+                    cases.push(("EndOfData::new(v, ..)", w(&|o| write_vec(pdu::EndOfData::new(v, *st, timing).write(o))), raw_control(v, 7, *s, &[*n, 11, 22, 33]), 5));
+                }
+                for (carrier, wire, want, which) in cases {
+                    acc.evals += 1;
+                    let wit = || format!("{shown} form={name} carrier={carrier} version={v}");
+                    if wire != want { acc.fail("C07.forms.wire", wit, if clock { "octets written differ from the independent encoding".to_string() } else { format!("written {} expected {}", hex(&wire), hex(&want)) }); ok = false; continue }
+                    match rd(&wire, which) {
+                        None => { acc.fail("C07.forms.read_back", wit, "what the library wrote does not read back (or octets are left over)".into()); ok = false }
+                        Some((sess, ser, tim)) => {
+                            let ser_ok = ser.map(|x| x == Serial(*n) && Serial(*n) == x && x == *n && hash_std(&x) == hash_std(&Serial(*n)) && hash_fnv(&x) == hash_fnv(&st.serial())
+                                && x.partial_cmp(&st.serial()) == Some(std::cmp::Ordering::Equal) && x.0 == *n).unwrap_or(true);
+                            let tim_ok = match (which, tim) { (4, Some(t)) => timing_eq(t, 11, 22, 33), (5, Some(t)) => v > 0 && timing_eq(t, 11, 22, 33), (5, None) => v == 0, (4, None) => false, _ => true };
+                            if sess != Some(*s) || !ser_ok || !tim_ok {
+                                acc.fail("C07.forms.read_back", wit, if clock { "session / serial / timing read back differ from the ones written".to_string() } else { format!("read back session {sess:?} serial {ser:?} timing {tim:?}") }); ok = false;
+                            }
+                        }
+                    }
+                }
+            }
+            acc.class(if !ok { "violation" } else if fi == 0 && !clock { "state:plain-constructor" } else if clock && fi == 0 { "state:clock-made" } else { "state:other-form" });
+        }
+    }
+    // Timing
+    for (r, y, e) in [(3600u32, 600u32, 7200u32), (0, 0, 0), (1, 600, 7200), (3600, 2, 7200), (3600, 600, 3), (0xFFFF_FFFF, 0x8000_0000, 0x7FFF_FFFF)] {
+        let d = Timing::default();
+        let mut forms: Vec<(&'static str, Timing)> = vec![("Timing{..}", Timing { refresh: r, retry: y, expire: e })];
+        forms.push(("fields assigned on the default", { let mut t = Timing::default(); t.expire = e; t.retry = y; t.refresh = r; t }));
+        forms.push(("copied", { let t = Timing { refresh: r, retry: y, expire: e }; let u = t; u }));
+        if (r, y, e) == (d.refresh, d.retry, d.expire) { forms.push(("Timing::default()", Timing::default())) }
+        if (y, e) == (d.retry, d.expire) { forms.push(("Timing{refresh, ..Default::default()}", Timing { refresh: r, ..Default::default() })) }
+        if (r, e) == (d.refresh, d.expire) { forms.push(("Timing{retry, ..Default::default()}", Timing { retry: y, ..Default::default() })) }
+        if (r, y) == (d.refresh, d.retry) { forms.push(("Timing{expire, ..Default::default()}", Timing { expire: e, ..Default::default() })) }
+        for (fi, (name, t)) in forms.iter().enumerate() {
+            if fi > 0 { acc.nontrivial += 1 }
+            let mut ok = true;
+            for v in 1u8..=2 { for via in [false, true] {
+                acc.evals += 1;
+                let wit = || format!("timing=({r},{y},{e}) form={name} carrier={} version={v}", if via { "EndOfData::new" } else { "EndOfDataV1::new" });
+                let st = State::from_parts(0x55AA, Serial(9));
+                let mut wire = Vec::new();
+                let wr = if via { write_vec(pdu::EndOfData::new(v, st, *t).write(&mut wire)) } else { write_vec(pdu::EndOfDataV1::new(v, st, *t).write(&mut wire)) };
+                if wr.is_err() || wire != raw_control(v, 7, 0x55AA, &[9, r, y, e]) { acc.fail("C07.forms.wire", wit, format!("written {}", hex(&wire))); ok = false; continue }
+                let mut rd: &[u8] = &wire;
+                let back = pdu::Payload::read(&mut rd).now_or_never().and_then(|x| x.ok()).and_then(|x| x.err()).and_then(|eod| eod.timing());
+                let mut rd2: &[u8] = &wire;
+                let back2 = pdu::EndOfDataV1::read(&mut rd2).now_or_never().and_then(|x| x.ok()).map(|p| p.timing());
+                let good = |b: Option<Timing>| b.map(|b| timing_eq(b, r, y, e) && b.refresh_duration() == std::time::Duration::from_secs(r as u64)).unwrap_or(false);
+                if !good(back) || !good(back2) || t.refresh_duration().as_secs() != r as u64 { acc.fail("C07.forms.read_back", wit, format!("timing read back {back:?} / {back2:?}")); ok = false }
+            } }
+            acc.class(if !ok { "violation" } else if fi == 0 { "timing:literal" } else { "timing:other-form" });
+        }
+    }
+    // Action
+    let item = Payload::origin(MaxLenPrefix::new(Prefix::new_v4(Ipv4Addr::from(0x0A00_0000), 8).unwrap(), Some(8)).unwrap(), Asn::from_u32(5));
+    for flags in 0u16..=255 {
+        let flags = flags as u8;
+        let want = if flags & 1 == 1 { Action::Announce } else { Action::Withdraw };
+        let mut forms: Vec<(String, Action)> = vec![(format!("Action::from_flags({flags:#x})"), Action::from_flags(flags))];
+        if let Ok(a) = Action::arbitrary(&mut Unstructured::new(&[flags])) { forms.push((format!("Action::arbitrary(input {flags:02x})"), a)) }
+        for (name, a) in forms {
+            acc.evals += 1;
+            if flags > 1 { acc.nontrivial += 1 }
+            let drawn = name.starts_with("Action::arb");
+            let target = if drawn { a } else { want };
+            let wit = || format!("action form={name}");
+            let mut ok = true;
+            if !drawn && a != want { acc.fail("C07.forms.accessors", wit, format!("{a:?}")); ok = false }
+            if same_law(&a, &target, true).is_err() || a.into_flags() != target.is_announce() as u8 || a.is_announce() == a.is_withdraw() { acc.fail("C07.forms.equal", wit, format!("{a:?} against the literal {target:?}")); ok = false }
+            for v in 0u8..=2 {
+                let mut wire = Vec::new();
+                let _ = write_vec(pdu::Payload::new(v, a.into_flags(), item.as_ref()).write(&mut wire));
+                let back = read_payload_slice(&wire).ok().and_then(|(p, _)| p.to_payload().ok());
+                if wire.get(8) != Some(&(target.is_announce() as u8)) || back.as_ref().map(|(b, _)| *b) != Some(target) || back.map(|(_, i)| i) != Some(item.clone()) {
+                    acc.fail("C07.forms.read_back", wit, format!("version {v}: written {}", hex(&wire))); ok = false;
+                }
+            }
+            acc.class(if !ok { "violation" } else if drawn { "action:drawn" } else { "action:from-flags" });
+        }
+    }
+}
+
+//------------ the server connection as a reader of queries ---------------------
+//
+// `Server::run` is one more reader of the PDUs the library writes: a query
+// must reach the payload source with the session and serial it was written
+// with, however the octets arrive and whatever else the connection has to
+// attend to between two chunks.
+
+const SRC_SESSION: u16 = 0x5EED;
+const SRC_SERIAL: u32 = 0x0102_0304;
+const SRC_TIMING: (u32, u32, u32) = (7, 8, 9);
+
+/// What the source was asked for.
+#[derive(Clone, Debug, PartialEq, Eq)]
+enum Asked { Full, Diff(u16, u32) }
+
+/// A source that records what it is asked and answers a serial query with
+/// one origin made from the session and serial it was handed (so that the
+/// response shows which query it answers).
+#[derive(Clone)]
+struct EchoSrc { asked: Arc<Mutex<Vec<Asked>>> }
+
+struct EchoIter { item: Option<Payload> }
+
+impl PayloadSet for EchoIter { fn next(&mut self) -> Option<PayloadRef<'_>> { self.item.take().map(|p| match p { Payload::Origin(o) => PayloadRef::Origin(o), _ => unreachable!() }) } }
+impl PayloadDiff for EchoIter { fn next(&mut self) -> Option<(PayloadRef<'_>, Action)> { PayloadSet::next(self).map(|p| (p, Action::Announce)) } }
+
+fn echo_addr(session: u16) -> u32 { 0x0A00_0000 | ((session as u32) << 8) }
+const FULL_ADDR: u32 = 0xC000_0200;
+const FULL_ASN: u32 = 0xF011;
+
+impl PayloadSource for EchoSrc {
+    type Set = EchoIter;
+    type Diff = EchoIter;
+    fn ready(&self) -> bool { true }
+    fn notify(&self) -> State { st(SRC_SESSION, SRC_SERIAL) }
+    fn full(&self) -> (State, EchoIter) {
+        self.asked.lock().unwrap().push(Asked::Full);
+        (st(SRC_SESSION, SRC_SERIAL), EchoIter { item: Some(forms_of_plain(&Abs::Origin { v6: false, addr: FULL_ADDR as u128, plen: 24, mlen: 24, asn: FULL_ASN })) })
+    }
+    fn diff(&self, state: State) -> Option<(State, EchoIter)> {
+        self.asked.lock().unwrap().push(Asked::Diff(state.session(), state.serial().0));
+        Some((st(SRC_SESSION, SRC_SERIAL), EchoIter { item: Some(forms_of_plain(&Abs::Origin { v6: false, addr: echo_addr(state.session()) as u128, plen: 24, mlen: 24, asn: state.serial().0 })) }))
+    }
+    fn timing(&self) -> Timing { Timing { refresh: SRC_TIMING.0, retry: SRC_TIMING.1, expire: SRC_TIMING.2 } }
+}
+
+/// The response the echo source's server owes to one query, written without the library.
+fn echo_response(v: u8, q: &Asked) -> Vec<u8> {
+    let mut o = raw_control(v, 3, SRC_SESSION, &[]);
+    let (addr, asn) = match q { Asked::Full => (FULL_ADDR, FULL_ASN), Asked::Diff(s, n) => (echo_addr(*s), *n) };
+    o.extend(Abs::Origin { v6: false, addr: addr as u128, plen: 24, mlen: 24, asn }.wire(v, 1));
+    if v == 0 { o.extend(raw_control(0, 7, SRC_SESSION, &[SRC_SERIAL])) } else { o.extend(raw_control(v, 7, SRC_SESSION, &[SRC_SERIAL, SRC_TIMING.0, SRC_TIMING.1, SRC_TIMING.2])) }
+    o
+}
+
+/// Observations of one run of the real server over one scripted connection.
+#[derive(Clone, Debug)]
+struct ServerRun { asked: Vec<Asked>, out: Vec<u8>, consumed: u64, conn_ended: bool, panicked: bool, livelock: bool, spin: bool, flood: bool, server_ended: bool }
+
+fn exec_server(stream_bytes: &[u8], script: &[Ev]) -> ServerRun {
+    let run = SCHED.with(|s| s.borrow().run(async {
+        let (sock, ctl) = sock_pair();
+        let mut notify = NotifySender::new();
+        let src = EchoSrc { asked: Arc::new(Mutex::new(Vec::new())) };
+        let server = Server::new(futures_util::stream::iter(vec![Ok::<_, io::Error>(sock)]), notify.clone(), src.clone());
+        let h = tokio::spawn(server.run());
+        // the connection task starts and parks in its first receive
+        let q0 = quiesce(&[&ctl]).await;
+        let tr = play(&ctl, stream_bytes, Some(&mut notify), script).await;
+        let q1 = quiesce(&[&ctl]).await;
+        let asked = src.asked.lock().unwrap().clone();
+        ServerRun { asked, out: ctl.output(), consumed: ctl.consumed(), conn_ended: ctl.dropped(), panicked: ctl.dropped_in_panic(),
+            livelock: ctl.livelock(), spin: q0.spin || tr.spin || q1.spin, flood: ctl.flood(), server_ended: h.is_finished() }
+    }));
+    if !run.conn_ended || !run.server_ended {
+        // a task is left behind in the runtime: the next run starts from a clean one
+        SCHED.with(|s| *s.borrow_mut() = Sched::new());
+    }
+    run
+}
+
+/// What a query stream is on the wire, per the grammar of the two query PDUs.
+#[derive(Clone, Debug, PartialEq, Eq)]
+enum QExp { Query(u8, Asked), Violation(&'static str) }
+
+fn query_grammar(b: &[u8]) -> QExp {
+    if b.len() < 8 { return QExp::Violation("ends inside the header") }
+    let (v, ty, session, len) = (b[0], b[1], u16::from_be_bytes([b[2], b[3]]), u32::from_be_bytes([b[4], b[5], b[6], b[7]]));
+    if v > 2 { return QExp::Violation("version above 2") }
+    match ty {
+        1 if len == 12 => if b.len() >= 12 { QExp::Query(v, Asked::Diff(session, u32::from_be_bytes([b[8], b[9], b[10], b[11]]))) } else { QExp::Violation("ends inside the serial") },
+        2 if len == 8 => QExp::Query(v, Asked::Full),
+        1 | 2 => QExp::Violation("wrong length"),
+        _ => QExp::Violation("not a query type"),
+    }
+}
+
+/// Removes the Serial Notify PDUs from what the server wrote; they must be
+/// well-formed notifications of the source's state.
+fn strip_notifies(out: &[u8], versions: &[u8]) -> Result<(Vec<u8>, usize), String> {
+    let pdus = split_sent(out).ok_or_else(|| format!("the output is not a sequence of PDUs: {}", show(out)))?;
+    let (mut rest, mut n) = (Vec::new(), 0);
+    for p in pdus {
+        if p[1] == 0 {
+            if p.len() != 12 || !versions.contains(&p[0]) || p[2..4] != SRC_SESSION.to_be_bytes() || p[8..12] != SRC_SERIAL.to_be_bytes() { return Err(format!("malformed serial notify {}", hex(p))) }
+            n += 1;
+        } else { rest.extend_from_slice(p) }
+    }
+    Ok((rest, n))
+}
+
+/// Chunk sizes -> every script with a notification in any subset of the
+/// gaps (before the first chunk, between two chunks, after the last), as a
+/// batch of its own or in the batch of the chunk that follows; then close.
+fn notify_schedules(sizes: &[usize], out: &mut Vec<Vec<Ev>>) {
+    let k = sizes.len();
+    for subset in 0u32..(1 << (k + 1)) {
+        for batched in [false, true] {
+            if batched && subset & ((1 << k) - 1) == 0 { continue }
+            let mut sc = Vec::new();
+            for (i, c) in sizes.iter().enumerate() {
+                if subset >> i & 1 == 1 { sc.push(Ev::Notify); if !batched { sc.push(Ev::Settle) } }
+                sc.push(Ev::Deliver(*c)); sc.push(Ev::Settle);
+            }
+            if subset >> k & 1 == 1 { sc.push(Ev::Notify); sc.push(Ev::Settle) }
+            sc.push(Ev::Close); sc.push(Ev::Settle);
+            out.push(sc);
+        }
+    }
+}
+
+/// All ways to cut `len` octets into <= max_cuts+1 chunks.
+fn chunkings(len: usize, max_cuts: usize) -> Vec<Vec<usize>> {
+    let mut out = vec![vec![len]];
+    if max_cuts >= 1 { for a in 1..len { out.push(vec![a, len - a]) } }
+    if max_cuts >= 2 { for a in 1..len { for b in a + 1..len { out.push(vec![a, b - a, len - b]) } } }
+    out
+}
+
+/// One run of the server route. `queries`: the written values the stream is made of.
+fn judge_server_route(acc: &mut Acc, what: &str, stream: &[u8], script: &[Ev]) {
+    let wit = || format!("server {what} bytes={} sched={}", show(stream), render_script(script));
+    if skip_for_replay(script, &wit) { return }
+    let run = exec_server(stream, script);
+    acc.evals += 1;
+    let notifies = script.iter().filter(|e| matches!(e, Ev::Notify)).count();
+    let delivered: usize = script.iter().map(|e| if let Ev::Deliver(k) = e { *k } else { 0 }).sum();
+    let cuts = script.iter().filter(|e| matches!(e, Ev::Deliver(_))).count();
+    if notifies > 0 && cuts > 1 { acc.nontrivial += 1 }
+    let mut ok = true;
+    if run.panicked { acc.fail("C07.route.server.no_panic", &wit, "the connection task panicked".into()); ok = false }
+    if run.livelock || run.spin { acc.fail("C07.route.server.no_hang", &wit, "the connection keeps polling after the client has closed (livelock / spin guard)".into()); ok = false }
+    if run.flood { acc.fail("C07.route.server.no_hang", &wit, "the connection writes without end (output cap)".into()); ok = false }
+    if !run.conn_ended && !run.panicked { acc.fail("C07.route.server.no_hang", &wit, "the connection is still open at quiescence after the client has closed".into()); ok = false }
+    // the model: the stream as a sequence of queries up to the first violation
+    let seen = &stream[..delivered.min(stream.len())];
+    let (mut want_asked, mut want_out, mut versions, mut p, mut violation) = (Vec::new(), Vec::new(), vec![0u8], 0usize, None);
+    while p < seen.len() {
+        match query_grammar(&seen[p..]) {
+            QExp::Query(v, q) => {
+                // the version of a connection is the one of its first query
+                if versions.len() > 1 && versions[1] != v { violation = Some("version differs from the first query"); break }
+                if versions.len() == 1 { versions.push(v) }
+                want_out.extend(echo_response(v, &q));
+                p += if q == Asked::Full { 8 } else { 12 };
+                want_asked.push(q);
+            }
+            QExp::Violation(why) => { violation = Some(why); break }
+        }
+    }
+    if run.asked != want_asked {
+        acc.fail("C07.route.server.same_query", &wit, format!("the payload source was asked {:?}; the stream carries {:?}{}", run.asked, want_asked, violation.map(|w| format!(" and then a violation ({w})")).unwrap_or_default()));
+        ok = false;
+    }
+    // a notification is announced in the version of the connection: 0 until the first complete header has set it
+    if versions.len() == 1 && seen.len() >= 8 && seen[0] <= 2 { versions.push(seen[0]) }
+    match strip_notifies(&run.out, &versions) {
+        Err(d) => { acc.fail("C07.route.server.response", &wit, d); ok = false }
+        Ok((rest, n)) => {
+            if n > notifies { acc.fail("C07.route.server.response", &wit, format!("{n} serial notifies for {notifies} notifications")); ok = false }
+            if !rest.starts_with(&want_out) {
+                acc.fail("C07.route.server.response", &wit, format!("the responses are not the ones for the queries written: got {} expected {}", show(&rest), show(&want_out))); ok = false;
+            } else {
+                let tail = &rest[want_out.len()..];
+                match violation {
+                    None => if !tail.is_empty() { acc.fail("C07.route.server.response", &wit, format!("{} octets after the responses: {}", tail.len(), show(tail))); ok = false },
+                    // a violation is answered with an error report or by closing, never with data
+                    Some(why) => if !tail.is_empty() && tail[1] != 10 { acc.fail("C07.route.server.error_expected", &wit, format!("the stream goes wrong ({why}) and is answered with {}", show(tail))); ok = false },
+                }
+            }
+        }
+    }
+    if violation.is_none() && run.consumed != seen.len() as u64 { acc.fail("C07.route.server.response", &wit, format!("{} of {} octets consumed", run.consumed, seen.len())); ok = false }
+    acc.class(if !ok { "violation" } else if violation.is_some() { "violation-in-stream:no-data-served" } else if notifies > 0 { "queries-read-as-written:with-notifications" } else { "queries-read-as-written" });
+}
+
+fn space_server_route(ctx: &Ctx) {
+    let thorough = ctx.tier.is_thorough();
+    let sp = ctx.space("route.server",
+        "the real Server::run over a scripted connection as a reader of query PDUs: every Serial Query (versions 0-2 x 5 sessions x 5 serials) and Reset Query written by the library's writers, and the queries the real Client writes (reset / serial, initial versions 0-2), delivered under every fragmentation into <= 3 chunks (quick: <= 2 chunks for 16 of the 25 session/serial pairs of each version) x a notification (NotifySender::notify) in every subset of the gaps before / between / after the chunks, as a batch of its own and in the batch of the chunk that follows; streams of two queries (serial+reset, reset+serial, serial+serial) likewise (quick: <= 2 chunks for versions 0 and 2); every truncation of a query (closed after k octets) and every single header-field corruption of a query under the <= 2-chunk schedules; oracle: the payload source is asked exactly the (session, serial) / reset that was written, in order, the octets written back (serial notifies set aside, each a well-formed notify of the source's state) are exactly the responses for those queries (the source answers a serial query with an origin made of the session and serial it was handed), everything is consumed, a violation is never answered with data, the connection ends when the client closes; non-trivial = runs with >= 2 chunks and >= 1 notification");
+    struct Job { what: String, stream: Vec<u8>, max_cuts: usize, cut_stream: bool }
+    let setup = rpki_verif::guard(|| {
+        let mut jobs: Vec<Job> = Vec::new();
+        let lib = |val: &Val| val.build().wire();
+        for v in 0u8..=2 {
+            for (i, &session) in SESSIONS.iter().enumerate() { for (j, &serial) in U32S.iter().enumerate() {
+                let val = Val::SerialQuery { v, session, serial };
+                let deep = thorough || i == j || (i + j) % 5 == 0;
+                jobs.push(Job { what: format!("query={} writer=SerialQuery::write", val.render()), stream: lib(&val), max_cuts: if deep { 2 } else { 1 }, cut_stream: false });
+            } }
+            jobs.push(Job { what: format!("query=ResetQuery{{v:{v}}} writer=ResetQuery::write"), stream: lib(&Val::ResetQuery { v }), max_cuts: 2, cut_stream: false });
+            // what the real client writes
+            for state in [None, Some((0xA1B2u16, 0xC3D4_E5F6u32))] {
+                let sent = exec_client(v, state, &[], &[Ev::Close, Ev::Settle]).sent;
+                let twin = match state { None => lib(&Val::ResetQuery { v }), Some((session, serial)) => lib(&Val::SerialQuery { v, session, serial }) };
+                jobs.push(Job { what: format!("query={} writer=Client::step(initial version {v}){}", if state.is_some() { "serial(0xa1b2,0xc3d4e5f6)" } else { "reset" },
+                    if sent == twin { "" } else { " [differs from the PDU's own writer]" }), stream: sent, max_cuts: 2, cut_stream: false });
+            }
+            // two queries in one stream
+            let (a, b, r) = (lib(&Val::SerialQuery { v, session: 0x1234, serial: 0xDEAD_BEEF }), lib(&Val::SerialQuery { v, session: 0xFFFE, serial: 1 }), lib(&Val::ResetQuery { v }));
+            for (n, x, y) in [("serial+reset", &a, &r), ("reset+serial", &r, &a), ("serial+serial", &a, &b)] {
+                jobs.push(Job { what: format!("queries={n} version={v}"), stream: [&x[..], &y[..]].concat(), max_cuts: if thorough || v == 1 { 2 } else { 1 }, cut_stream: false });
+            }
+            // truncations and corruptions of single queries
+            for (n, w) in [("serial", &a), ("reset", &r)] {
+                jobs.push(Job { what: format!("query={n} version={v} truncated"), stream: w.clone(), max_cuts: 1, cut_stream: true });
+                for (c, bytes) in corruptions(w) {
+                    jobs.push(Job { what: format!("query={n} version={v} {c}"), stream: bytes, max_cuts: 1, cut_stream: false });
+                }
+            }
+        }
+        jobs
+    });
+    let jobs = match setup {
+        Ok(j) => j,
+        Err(p) => { sp.eval(); ctx.fail("C07.route.server.no_panic", "writing the queries", p); sp.done(false, "stopped: the queries cannot be written"); return }
+    };
+    let accs: Vec<Acc> = jobs.par_iter().map(|job| {
+        let mut acc = Acc::default();
+        let lens: Vec<usize> = if job.cut_stream { (0..job.stream.len()).collect() } else { vec![job.stream.len()] };
+        for len in lens {
+            let mut scripts = Vec::new();
+            if len == 0 { notify_schedules(&[], &mut scripts) }
+            else { for sizes in chunkings(len, job.max_cuts) { notify_schedules(&sizes, &mut scripts) } }
+            for sc in &scripts { judge_server_route(&mut acc, &job.what, &job.stream[..len], sc) }
+        }
+        acc
+    }).collect();
+    report(ctx, &sp, accs);
+    sp.set("streams", serde_json::json!(jobs.len()));
+    sp.sample_str(|| { let mut v = Vec::new(); notify_schedules(&[4, 8], &mut v); format!("{} sched={}", jobs[13].what, render_script(&v[5])) });
+    sp.done(true, &format!("{} query streams x fragmentations into <= 3 chunks (<= 2 for most in quick) x notifications in every subset of the gaps x 2 batchings", jobs.len()));
+}
+
+//------------ the real client against the real server --------------------------
+//
+// Both ends are the library: whatever the server writes the client must read
+// back as the source's data, and whatever the client writes must reach the
+// source as the client's state -- under every fragmentation of every message
+// in either direction, and with the client's own refresh timer running out
+// between two chunks of a Serial Notify.
+
+const E_SESSION: u16 = 0x0E2E;
+const E_SERIAL: u32 = 0xFFFF_FFFE;
+const E_TIMING: (u32, u32, u32) = (40, 41, 42);
+
+struct E2eState { serial: u32, full: Vec<Payload>, diff_from_prev: Vec<(Action, Payload)> }
+struct E2eShared { states: Vec<E2eState>, cur: std::sync::atomic::AtomicUsize, asked: Mutex<Vec<Asked>> }
+#[derive(Clone)]
+struct E2eSrc(Arc<E2eShared>);
+struct E2eIter { data: Arc<E2eShared>, state: usize, diff: Option<bool>, pos: usize }
+
+impl PayloadSet for E2eIter {
+    fn next(&mut self) -> Option<PayloadRef<'_>> { let i = self.pos; self.pos += 1; self.data.states[self.state].full.get(i).map(|p| p.as_ref()) }
+}
+impl PayloadDiff for E2eIter {
+    fn next(&mut self) -> Option<(PayloadRef<'_>, Action)> {
+        if self.diff != Some(true) { return None }
+        let i = self.pos; self.pos += 1; self.data.states[self.state].diff_from_prev.get(i).map(|(a, p)| (p.as_ref(), *a))
+    }
+}
+impl E2eSrc {
+    fn cur(&self) -> usize { self.0.cur.load(std::sync::atomic::Ordering::SeqCst) }
+    fn advance(&self) { if self.cur() + 1 < self.0.states.len() { self.0.cur.fetch_add(1, std::sync::atomic::Ordering::SeqCst); } }
+}
+impl PayloadSource for E2eSrc {
+    type Set = E2eIter;
+    type Diff = E2eIter;
+    fn ready(&self) -> bool { true }
+    fn notify(&self) -> State { st(E_SESSION, self.0.states[self.cur()].serial) }
+    fn full(&self) -> (State, E2eIter) {
+        self.0.asked.lock().unwrap().push(Asked::Full);
+        let c = self.cur();
+        (st(E_SESSION, self.0.states[c].serial), E2eIter { data: self.0.clone(), state: c, diff: None, pos: 0 })
+    }
+    fn diff(&self, state: State) -> Option<(State, E2eIter)> {
+        self.0.asked.lock().unwrap().push(Asked::Diff(state.session(), state.serial().0));
+        if state.session() != E_SESSION { return None }
+        let c = self.cur();
+        let here = self.0.states[c].serial;
+        if state.serial().0 == here { return Some((st(E_SESSION, here), E2eIter { data: self.0.clone(), state: c, diff: Some(false), pos: 0 })) }
+        if state.serial().0 == here.wrapping_sub(1) { return Some((st(E_SESSION, here), E2eIter { data: self.0.clone(), state: c, diff: Some(true), pos: 0 })) }
+        None
+    }
+    fn timing(&self) -> Timing { Timing { refresh: E_TIMING.0, retry: E_TIMING.1, expire: E_TIMING.2 } }
+}
+
+/// The two states of the end-to-end source, as items written down plainly.
+fn e2e_data() -> Vec<(u32, Vec<Abs>, Vec<(bool, Abs)>)> {
+    let ski = { let mut k = [0u8; 20]; for (i, b) in k.iter_mut().enumerate() { *b = 0xE0 | i as u8 } k };
+    let o4 = Abs::Origin { v6: false, addr: 0x0A14_0000, plen: 16, mlen: 24, asn: 65010 };
+    let o4b = Abs::Origin { v6: false, addr: 0xC633_6400, plen: 24, mlen: 24, asn: 65011 };
+    let o6 = Abs::Origin { v6: true, addr: 0x2001_0db8u128 << 96, plen: 32, mlen: 48, asn: 0xFFFF_FFFF };
+    let key = Abs::Key { ski, asn: 65012, info: vec![1, 2, 3, 4, 5, 6, 7] };
+    let aspa = Abs::Aspa { customer: 65013, providers: vec![65014, 65015, 65016] };
+    vec![
+        (E_SERIAL, vec![o4.clone(), o6.clone(), key.clone(), aspa.clone()], vec![(true, o4.clone()), (false, o4b.clone()), (true, key.clone()), (false, aspa.clone())]),
+        (E_SERIAL.wrapping_add(1), vec![o4.clone(), o4b.clone(), o6.clone(), aspa.clone()], vec![(true, o4b), (false, key), (false, o6), (true, aspa)]),
+    ]
+}
+
+/// What the client's target must have been handed for a reply carrying these items in version `v`.
+fn e2e_seen(v: u8, items: &[(bool, Abs)]) -> Vec<(Action, Payload)> {
+    items.iter().filter(|(_, a)| a.min_version() <= v).map(|(ann, a)| {
+        let p = forms_of_plain(a);
+        if *ann { (Action::Announce, p) } else { (Action::Withdraw, match p { Payload::Aspa(x) => Payload::Aspa(x.withdraw()), other => other }) }
+    }).collect()
+}
+
+/// One end-to-end run: which message (in order of appearance on the link) is
+/// cut where, and before which chunk of it the clock passes the client's refresh time.
+#[derive(Clone, Debug, Default)]
+struct Plan { v: u8, start: Option<(u16, u32)>, steps: usize, msg: usize, sizes: Vec<usize>, tick_before: Option<usize> }
+
+#[derive(Clone, Debug)]
+struct E2eRun {
+    /// Per completed client step: result, and what the target had received by then.
+    steps: Vec<Result<(), String>>,
+    applied: Vec<(bool, Vec<(Action, Payload)>, (u32, u32, u32))>,
+    state: Option<(u16, u32)>,
+    asked: Vec<Asked>,
+    /// The messages that crossed the link: (client to server?, octets).
+    msgs: Vec<(bool, Vec<u8>)>,
+    client_end: End,
+    panicked_conn: bool,
+    spin: bool,
+}
+
+fn exec_e2e(plan: &Plan) -> E2eRun {
+    let data = e2e_data();
+    let plan = plan.clone();
+    let run = SCHED.with(|s| s.borrow().run(async move {
+        let (csock, cctl) = sock_pair();
+        let (ssock, sctl) = sock_pair();
+        let src = E2eSrc(Arc::new(E2eShared {
+            states: data.iter().map(|(serial, full, diff)| E2eState { serial: *serial, full: full.iter().map(forms_of_plain).collect(),
+                diff_from_prev: diff.iter().map(|(ann, a)| (if *ann { Action::Announce } else { Action::Withdraw }, forms_of_plain(a))).collect() }).collect(),
+            cur: std::sync::atomic::AtomicUsize::new(0), asked: Mutex::new(Vec::new()) }));
+        let mut notify = NotifySender::new();
+        let server = Server::new(futures_util::stream::iter(vec![Ok::<_, io::Error>(ssock)]), notify.clone(), src.clone());
+        let sh = tokio::spawn(server.run());
+        let done: Arc<Mutex<Vec<Result<(), String>>>> = Arc::new(Mutex::new(Vec::new()));
+        let (done2, steps, v, start) = (done.clone(), plan.steps, plan.v, plan.start);
+        let ch = tokio::spawn(async move {
+            let mut client = Client::with_initial_version(v, csock, Tgt::default(), start.map(|(s, n)| st(s, n)));
+            for _ in 0..steps {
+                let r = client.step().await.map_err(|e| err_text(&e));
+                let failed = r.is_err();
+                done2.lock().unwrap().push(r);
+                if failed { break }
+            }
+            (std::mem::take(&mut client.target_mut().applied), client.state().map(|s| (s.session(), s.serial().0)))
+        });
+        let mut spin = false;
+        let mut msgs: Vec<(bool, Vec<u8>)> = Vec::new();
+        let mut notified = false;
+        // carry messages across until nothing is in flight; bounded: an exchange has at most 7 messages
+        for _ in 0..16 {
+            spin |= quiesce(&[&cctl, &sctl]).await.spin;
+            let (from, to, c2s) = if cctl.output_len() > 0 { (&cctl, &sctl, true) } else if sctl.output_len() > 0 { (&sctl, &cctl, false) } else {
+                if plan.steps == 2 && !notified && done.lock().unwrap().len() == 1 && done.lock().unwrap()[0].is_ok() {
+                    // the source moves on and says so
+                    src.advance(); notify.notify(); notified = true; continue
+                }
+                break
+            };
+            let bytes = from.take_output();
+            let idx = msgs.len();
+            msgs.push((c2s, bytes.clone()));
+            if idx == plan.msg && plan.sizes.iter().sum::<usize>() == bytes.len() {
+                let mut off = 0;
+                for (ci, k) in plan.sizes.iter().enumerate() {
+                    if plan.tick_before == Some(ci) { tokio::time::advance(std::time::Duration::from_secs(if plan.v == 0 { 3600 } else { E_TIMING.0 as u64 } + 1)).await; spin |= quiesce(&[&cctl, &sctl]).await.spin; }
+                    to.deliver(&bytes[off..off + k]); off += k;
+                    spin |= quiesce(&[&cctl, &sctl]).await.spin;
+                }
+            } else { to.deliver(&bytes) }
+        }
+        // both sides hang up
+        cctl.close(); sctl.close();
+        spin |= quiesce(&[&cctl, &sctl]).await.spin;
+        let (client_end, applied, state) = match join_within(ch, HORIZON).await {
+            Joined::Done((applied, state)) => (End::Done, applied, state), Joined::Panicked(m) => (End::Panicked(m), vec![], None), Joined::Stuck => (End::Stuck, vec![], None),
+        };
+        spin |= quiesce(&[&cctl, &sctl]).await.spin;
+        let clean = sctl.dropped() && sh.is_finished();
+        let steps = done.lock().unwrap().clone();
+        let asked = src.0.asked.lock().unwrap().clone();
+        (E2eRun { steps, applied, state, asked, msgs, client_end, panicked_conn: sctl.dropped_in_panic(), spin }, clean)
+    }));
+    if !run.1 || run.0.client_end == End::Stuck { SCHED.with(|s| *s.borrow_mut() = Sched::new()) }
+    run.0
+}
+
+fn render_plan(p: &Plan) -> String {
+    format!("version={} start={} steps={} cut=message#{}:{:?}{}", p.v, match p.start { None => "reset".to_string(), Some((s, n)) => format!("serial({s:#x},{n:#x})") }, p.steps, p.msg, p.sizes,
+        p.tick_before.map(|c| format!(" refresh-time-passes-before-chunk#{c}")).unwrap_or_default())
+}
+
+/// What the exchange must come to, from the plan and the source's data alone.
+fn e2e_expect(p: &Plan) -> (Vec<(bool, Vec<(Action, Payload)>, (u32, u32, u32))>, Vec<Asked>, (u16, u32)) {
+    let data = e2e_data();
+    let all = |items: &[Abs]| -> Vec<(bool, Abs)> { items.iter().map(|a| (true, a.clone())).collect() };
+    let (mut applied, mut asked) = (Vec::new(), Vec::new());
+    // version 0 has no timing of its own: the client keeps its defaults
+    let timing = if p.v == 0 { (3600, 600, 7200) } else { E_TIMING };
+    match p.start {
+        None => { asked.push(Asked::Full); applied.push((true, e2e_seen(p.v, &all(&data[0].1)), timing)) }
+        Some((s, n)) => {
+            asked.push(Asked::Diff(s, n));
+            if s == E_SESSION && n == data[0].0.wrapping_sub(1) { applied.push((false, e2e_seen(p.v, &data[0].2), timing)) }
+            else if s == E_SESSION && n == data[0].0 { applied.push((false, vec![], timing)) }
+            else { asked.push(Asked::Full); applied.push((true, e2e_seen(p.v, &all(&data[0].1)), timing)) }
+        }
+    }
+    let mut state = (E_SESSION, data[0].0);
+    if p.steps == 2 {
+        asked.push(Asked::Diff(E_SESSION, data[0].0));
+        applied.push((false, e2e_seen(p.v, &data[1].2), timing));
+        state = (E_SESSION, data[1].0);
+    }
+    (applied, asked, state)
+}
+
+fn judge_e2e(acc: &mut Acc, plan: &Plan) {
+    let wit = || format!("end-to-end {}", render_plan(plan));
+    if let Some(r) = REPLAY.get().and_then(|r| r.as_ref()) { if wit() != *r { return } }
+    let run = exec_e2e(plan);
+    acc.evals += 1;
+    if plan.sizes.len() > 1 { acc.nontrivial += 1 }
+    let mut ok = true;
+    if let End::Panicked(m) = &run.client_end { acc.fail("C07.route.e2e.no_panic", &wit, m.clone()); ok = false }
+    if run.panicked_conn { acc.fail("C07.route.e2e.no_panic", &wit, "the server's connection task panicked".into()); ok = false }
+    if run.client_end == End::Stuck || run.spin { acc.fail("C07.route.e2e.no_hang", &wit, "the client is still pending after both sides have closed (or a task spins)".into()); ok = false }
+    let (applied, asked, state) = e2e_expect(plan);
+    let link = || run.msgs.iter().map(|(c2s, b)| format!("{}{}", if *c2s { "C>" } else { "S>" }, show(b))).collect::<Vec<_>>().join(" ");
+    if run.steps.len() != plan.steps || run.steps.iter().any(|r| r.is_err()) {
+        acc.fail("C07.route.e2e.client_reads_server", &wit, format!("steps ended {:?} although every PDU on the link was written by the library and arrived whole and in order; link: {}", run.steps, link())); ok = false;
+    } else {
+        if run.applied != applied { acc.fail("C07.route.e2e.client_reads_server", &wit, format!("the target received {} ; the source holds {}", trunc(&format!("{:?}", run.applied), 400), trunc(&format!("{applied:?}"), 400))); ok = false }
+        if run.state != Some(state) { acc.fail("C07.route.e2e.client_reads_server", &wit, format!("client state {:?}, the source is at {:?}", run.state, state)); ok = false }
+    }
+    if ok && run.asked != asked { acc.fail("C07.route.e2e.server_reads_client", &wit, format!("the source was asked {:?}, the client had to ask {:?}; link: {}", run.asked, asked, link())); ok = false }
+    acc.class(if !ok { "violation" } else if plan.tick_before.is_some() { "exchange-equal:refresh-timer-ran-out-inside-a-notify" } else if plan.steps == 2 { "exchange-equal:two-steps" } else { "exchange-equal:one-step" });
+}
+
+fn space_end_to_end(ctx: &Ctx) {
+    let thorough = ctx.tier.is_thorough();
+    let sp = ctx.space("route.end_to_end",
+        "the real Client against the real Server::run over a link whose transfer moments the driver controls: versions 0-2 x client start (reset; serial query with a diff; serial query for a serial the source no longer has / a foreign session, answered with Cache Reset and followed by a reset query) x one or two steps (the second after the source moved on and notified: the client reads the server's Serial Notify, asks with its state and gets the diff); the source holds origins of both families, a router key and an ASPA, announced and withdrawn; each message on the link in turn (query, response, cache reset, notify, second query, second response) is delivered under every fragmentation into <= 3 chunks (quick: responses into <= 2 chunks), the others whole; for the Serial Notify also with the client's refresh time passing before any chunk after the first; oracle: every step succeeds, the target holds exactly the source's data with action, timing and state, the source was asked exactly the client's state; non-trivial = runs with a message in >= 2 chunks");
+    let mut plans: Vec<Plan> = Vec::new();
+    let mut dry_fail: Vec<(Plan, String)> = Vec::new();
+    let d0 = e2e_data()[0].0;
+    for v in 0u8..=2 { for start in [None, Some((E_SESSION, d0.wrapping_sub(1))), Some((E_SESSION, 5)), Some((E_SESSION ^ 0x0100, d0))] { for steps in [1usize, 2] {
+        // a dry run gives the messages and their lengths
+        let base = Plan { v, start, steps, msg: usize::MAX, sizes: vec![], tick_before: None };
+        let dry = match rpki_verif::guard(|| exec_e2e(&base)) { Ok(r) => r, Err(p) => { dry_fail.push((base.clone(), p)); continue } };
+        plans.push(base.clone());
+        for (mi, (c2s, bytes)) in dry.msgs.iter().enumerate() {
+            // with two steps only the messages of the second exchange are cut (the first is the one-step case)
+            let first_of_second = dry.msgs.iter().position(|(c, b)| !*c && b.len() == 12 && b[1] == 0).unwrap_or(usize::MAX);
+            if steps == 2 && mi < first_of_second { continue }
+            let is_notify = mi == first_of_second;
+            let max_cuts = if thorough || *c2s || bytes.len() <= 12 { 2 } else { 1 };
+            for sizes in chunkings(bytes.len(), max_cuts) {
+                if sizes.len() == 1 { continue }
+                plans.push(Plan { msg: mi, sizes: sizes.clone(), ..base.clone() });
+                if is_notify { for c in 1..sizes.len() { plans.push(Plan { msg: mi, sizes: sizes.clone(), tick_before: Some(c), ..base.clone() }) } }
+            }
+        }
+    } } }
+    for (p, m) in dry_fail { sp.eval(); ctx.fail("C07.route.e2e.no_panic", format!("end-to-end {}", render_plan(&p)), m) }
+    let accs: Vec<Acc> = plans.par_chunks(64).map(|chunk| {
+        let mut acc = Acc::default();
+        for p in chunk {
+            if let Err(m) = rpki_verif::guard(|| judge_e2e(&mut acc, p)) { acc.fail("C07.route.e2e.no_panic", || format!("end-to-end {}", render_plan(p)), m); acc.class("violation") }
+        }
+        acc
+    }).collect();
+    report(ctx, &sp, accs);
+    sp.set("plans", serde_json::json!(plans.len()));
+    sp.sample_str(|| plans.get(plans.len() / 2).map(render_plan).unwrap_or_default());
+    sp.done(true, &format!("{} plans: 3 versions x 4 client starts x 1-2 steps x every message cut into <= 3 chunks in turn{}", plans.len(), if thorough { "" } else { " (responses: <= 2 chunks)" }));
+}
+
+/// With C07_TIMING set: wall and process CPU seconds since the last lap, on stderr (not part of the evidence).
+fn lap(what: &str) {
+    use std::sync::Mutex as M;
+    static LAST: M<Option<(std::time::Instant, f64)>> = M::new(None);
+    if std::env::var_os("C07_TIMING").is_none() { return }
+    let mut ts = libc::timespec { tv_sec: 0, tv_nsec: 0 };
+    unsafe { libc::clock_gettime(libc::CLOCK_PROCESS_CPUTIME_ID, &mut ts) };
+    let cpu = ts.tv_sec as f64 + ts.tv_nsec as f64 * 1e-9;
+    let now = std::time::Instant::now();
+    let mut g = LAST.lock().unwrap();
+    if let Some((t, c)) = *g { eprintln!("timing {what}: wall {:.2}s cpu {:.2}s", (now - t).as_secs_f64(), cpu - c) }
+    *g = Some((now, cpu));
 }
 
 //------------ main ----------------------------------------------------------
@@ -1527,6 +2923,7 @@ fn main() {
         }
     };
 
+    lap("setup");
     //--- (1) round trip of single PDUs ---------------------------------------
     let sp = ctx.space("roundtrip.pdu",
         "every value of the boundary domains (all PDU types, versions 0-2, both actions) written by the library, length field compared with the octets written, read back through every reader that consumes the type, under every fragmentation into <= 3 chunks (every cut position for PDUs <= 64 octets; first 48 / last 8 / 1024-boundary positions for longer ones; quick: <= 2 chunks for PDUs > 64 octets and one piece above 70 000 octets, thorough: <= 2 chunks above 70 000 octets); key-info lengths every 0..=300, provider counts every 0..=80, error-report field lengths every 0..=40, then k-1,k,k+1 for the powers of two up to 65536 octets / 16380 providers (thorough: key info up to 2^20); non-trivial = executions with at least one cut");
@@ -1557,6 +2954,7 @@ fn main() {
     sp.sample_str(|| sample(vals.iter().find(|v| matches!(v, Val::Aspa { providers, .. } if providers.len() == 2)).unwrap()));
     sp.done(true, &format!("{} values x readers x fragmentations into <= 3 chunks ({} for long PDUs)", vals.len(), max_cuts_long + 1));
 
+    lap("roundtrip.pdu");
     //--- (1b) the writer as a dimension ------------------------------------------
     let sp = ctx.space("roundtrip.writer",
         "every value written by the library (type's own write; payload PDUs and end of data also through the Payload / EndOfData enums) into the scripted socket, with and without native vectored writes, under: no limit; every write call limited to c octets; only the first write call limited to c octets (c in 1,2,7,11,12,31,32,33); back-pressure after k octets then release (k in 0,1,7,11,12,31,32,33,len-1); the octets that reach the socket must equal the Vec rendering, their number must equal the length field, and they must read back as the value; non-trivial = writes that went out in >= 2 pieces (measured)");
@@ -1575,6 +2973,7 @@ fn main() {
         format!("{} sched={}", v.render(), render_script(&writer_scripts(33)[20])) });
     sp.done(true, &format!("{} values x {} writer scripts x write paths", vals.len(), writer_scripts(64).len()));
 
+    lap("roundtrip.writer");
     //--- (2) round trip of whole replies through the client ------------------
     let sp = ctx.space("roundtrip.client",
         "reset, serial, serial-then-reset and version-downgrade replies (versions 0-2, every payload type the version carries, both actions; plus reset replies with n payload PDUs for every n in 0..=40 and around 64, 128, 256, these into <= 2 chunks) written by the library and read by the real Client::step under every fragmentation into <= 3 chunks (quick: <= 2 chunks); the target must receive exactly the items, actions, timing and state written; for <= 2 chunks also Client::new and Client::run against Client::step, and the Error PDUs of Client::send_error (direct and through a failing PayloadTarget::apply) for the four PayloadError values: identical octets, one well-formed Error PDU of the session's version; non-trivial = executions with at least one cut");
@@ -1606,6 +3005,7 @@ fn main() {
     sp.set("replies", serde_json::json!(cseeds.iter().map(|s| s.name.clone()).collect::<Vec<_>>()));
     sp.done(true, &format!("{} replies x every fragmentation into <= {} chunks", cseeds.len(), ctx.tier.pick(2, 3)));
 
+    lap("roundtrip.client");
     //--- (2b) prefix and max length through to_payload -------------------------
     let sp = ctx.space("to_payload.lengths",
         "IPv4 and IPv6 prefix PDUs with every (prefix length, max length) pair in 0..=255 x 0..=255, address all-ones, both actions: to_payload must not panic, and where it accepts, the item must carry exactly these lengths and the address with the host bits cleared; non-trivial = pairs outside 0 <= len <= max <= 32/128 (rejected) plus pairs with host bits to clear");
@@ -1654,6 +3054,7 @@ fn main() {
     sp.sample_str(|| "Ipv4Prefix prefix_len=24 max_len=33 flags=1 -> rejected".to_string());
     sp.done(true, "all 2 x 65536 length pairs x 2 actions");
 
+    lap("to_payload.lengths");
     //--- (2c) provider counts beyond what the library writes --------------------
     let sp = ctx.space("aspa.provider_count",
         "ASPA PDUs built octet by octet with n providers for n in 0,1,2,255,256, 16379..16381 (MAX_COUNT), k-1,k,k+1 for k = 2^15, 2^16, 2^17, 2^18, and 2^18+3, 2^18+16380, 2^18+16381 x versions 0-2 x both actions, read through Aspa::read, Header::read+Aspa::read_payload and Payload::read: whatever a reader accepts must answer every accessor (asn_count against iter().count(), into_providers against providers(), to_payload) without panicking; non-trivial = counts above ProviderAsns::MAX_COUNT, which the library itself never writes");
@@ -1691,6 +3092,7 @@ fn main() {
     sp.sample_str(|| "aspa providers=65536: length field 262156".to_string());
     sp.done(true, &format!("{} provider counts x 3 versions x 2 actions x 3 readers", counts.len()));
 
+    lap("aspa.provider_count");
     //--- (3) truncation -------------------------------------------------------
     let sp = ctx.space("fault.truncation",
         "every sequence of <= 2 seed PDUs (one of every type in every version; quick: pairs of equal version only) x every reader that consumes the types x stream closed after k octets for every k (close in the same batch as the octets / after quiescence), plus two long seeds, plus every reader on every seed (type mismatch); expected from the wire grammar: error within the bound, or the complete PDUs read back equal; non-trivial = cases with k strictly inside a PDU");
@@ -1744,6 +3146,7 @@ fn main() {
     sp.sample_str(|| format!("{} cut=9: {}", sds[10].render(), show(&swires[10][..9])));
     sp.done(true, &format!("{} seeds, sequences of <= 2, every truncation point, 2 close timings", sds.len() + lsds.len()));
 
+    lap("fault.truncation");
     //--- (4) header corruption -------------------------------------------------
     let sp = ctx.space("fault.header",
         "every seed x every single header-field corruption (version := 0,1,2,3,0x7f,0xff; type := 0..12,0xff; octets 2,3 := 0,1,0xff; length := 0,7,8,len-1,len+1,len+4,12,20,24,32,0xffff,0x10000,2^31,2^32-1; each length octet := 0,1,0x80,0xff) x followed by nothing / 8 / 24 further octets x every reader x 2 close timings; expected from the wire grammar; non-trivial = every case (each differs from the written PDU in exactly one field)");
@@ -1780,6 +3183,7 @@ fn main() {
     sp.sample_str(|| { let c = &corruptions(&swires[4])[20]; format!("{} {} -> {}", sds[4].render(), c.0, show(&c.1)) });
     sp.done(true, &format!("{} seeds x all single header-field corruptions x {} readers", hseeds.len(), all_rd.len()));
 
+    lap("fault.header");
     //--- (5) the client on broken replies --------------------------------------
     let sp = ctx.space("fault.client",
         "every client reply stream (reset / serial / serial-then-reset / downgrade / error report) x closed after k octets for every k (2 close timings), and x every single header-field corruption of every PDU of the reply, read by the real Client::step; the reply grammar decides where an error is due; non-trivial = cases the grammar calls broken");
@@ -1815,6 +3219,7 @@ fn main() {
     sp.sample_str(|| format!("{} cut=20: {}", cseeds[9].name, show(&cstreams[9][..20])));
     sp.done(true, "every truncation point and every single header-field corruption of every PDU of every reply");
 
+    lap("fault.client");
     //--- (6) several PDUs queued in one stream, every reader, every order ----------
     let sp = ctx.space("handed_out.queued",
         "every sequence of 3 seed PDUs of equal version (one of every type) queued in ONE stream that is handed to a sequence of three reader calls, every combination of the readers that consume the types, delivered in one piece and with 1-octet reads, then closed, and once with the last octet of the stream missing: every complete PDU must be recovered equal to what was written (a reader call may not take or lose octets of the PDUs queued behind its own); non-trivial = every case");
@@ -1852,6 +3257,7 @@ fn main() {
     sp.sample_str(|| format!("{}+{}+{}", sds[0].render(), sds[6].render(), sds[10].render()));
     sp.done(true, &format!("triples of {} seeds of equal version{} x reader combinations x 2 read granularities", sds.len(), if thorough { "" } else { " (third position: every third seed, rotating)" }));
 
+    lap("handed_out.queued");
     //--- (7) who else owns the octets -------------------------------------------------
     let sp = ctx.space("ownership",
         "router key info built from the same octets as sole owner / with a live clone / with a clone dropped just before / as a view into a larger buffer (offsets 0, 3) / from static memory, for lengths 0, 1, 5, 91, 300: the PDU written, read back and converted must be identical in all cases, and the other holders of the buffer unchanged; non-trivial = cases other than the sole owner");
@@ -1900,6 +3306,7 @@ fn main() {
         sp.done(true, "5 lengths x 6 ownership forms");
     }
 
+    lap("ownership");
     //--- (8) history: the same evaluation after other operations on the same thread ---
     let sp = ctx.space("history.independent",
         "subjects: writes (own write, enum write in 3-octet pieces), reads, to_payload and Payload::read+to_payload of one PDU of every type and of pairs with the same identity but different content (same key identifier / customer / prefix), rejected reads and conversions, client steps (complete and cut); predecessors: every subject, and every PDU's write pending after k octets and dropped / failing after k octets, every reader pending after k octets and dropped / stream error after k octets / stream end after k octets, client steps dropped or failing after k octets of the reply, for EVERY k; each sequence (predecessor, then all subjects, forward and in reverse order) runs on an OS thread of its own and every observation is compared with the same subject evaluated first thing on a fresh thread (thorough: also pairs of predecessors); non-trivial = sequences whose predecessor does not run to successful completion");
@@ -1929,6 +3336,7 @@ fn main() {
                     }
                 }
                 for (i, c) in cs.iter().enumerate() { for k in 0..c.2.len() { preds.push(Pred::ClientCancelled(i, k)); preds.push(Pred::ClientError(i, k)) } }
+                for q in 0..2 { for k in 0..history_query(q).len() { for n in [false, true] { preds.push(Pred::ServerCut(q, k, n)) } } }
                 let n_single = preds.len();
                 // sequences: one predecessor; thorough: also two (over a thinned menu)
                 let mut seqs: Vec<Vec<Pred>> = preds.iter().map(|p| vec![p.clone()]).collect();
@@ -1937,6 +3345,7 @@ fn main() {
                         Pred::Subject(_) => true,
                         Pred::WriteCancelled(_, _, k) | Pred::WriteError(_, _, k) | Pred::ReadCancelled(_, _, k) | Pred::ReadError(_, _, k) | Pred::ReadEof(_, _, k) => *k == 9,
                         Pred::ClientCancelled(_, k) | Pred::ClientError(_, k) => *k == 30,
+                        Pred::ServerCut(_, k, _) => *k == 5,
                     }).collect();
                     for a in &thin { for b in &thin { seqs.push(vec![(*a).clone(), (*b).clone()]) } }
                 }
@@ -1976,6 +3385,15 @@ fn main() {
             }
         }
     }
+
+    lap("history.independent");
+    space_forms(&ctx);
+    space_forms_history(&ctx);
+    lap("forms");
+    space_server_route(&ctx);
+    lap("route.server");
+    space_end_to_end(&ctx);
+    lap("route.end_to_end");
 
     ctx.finish();
 }
